@@ -12,1197 +12,2603 @@ Definition show_fres (r : fres) : string :=
   end.
 Definition check (rs : list rune) : string := digest (show_fres (format_res rs)).
 Definition full (rs : list rune) : string := show_fres (format_res rs).
-Eval vm_compute in ("<<<M1710>>>" ++ check (runes_of_ascii "  // top
-		options 
-    // c0
-  {  // c1
-	  LittleEndian	// c2a
-      // c2b
-
-=	// c3
-  	true 	 // c4
-	;// c5a
-	// c5b
-  FixedStringPadFromLeft  // c6a
-	// c6b
-	=  true// c8
-	;
-FixedStringPadChar
-=	// c11
-'0'// c12
-	; 
-    // c13
-  }
-	// c14
-	packet  // c15a
-      // c15b
-
-Trade 
-	    // c16
-
-	{
-
-    string
-
-    clOrdID
-    // c19
-,char[] 
-// c21
-
-Px 	 // c22
-,	// c23
-  u32	// c24a
-  // c24b
-
-x // c25
-
-,// c26a
-	// c26b
-    	}	// c27
-
-packet// c28
-  Reject 
-	// c29
-		{  // c30
-int32 Side2// c32
-    	, 
-
-// c33
-  repeat 	 // c34
-    	char[  // c35a
-  	// c35b
-
-3
-    ] // c37
-
-	clOrdID // c38a
-      // c38b
-  ,
-
-i32 	 // c40
-  tag7// c41a
-// c41b
-
-  ,	// c42a
-// c42b
-    	} // c43a
-// c43b
-packet
-	// c44
-  Leg 
-  // c45
-  	{
-    }
-    root 
-      // c48
-      packet 
-Quote  
-      // c50
-
-	{
-    // c51
-		string// c52
-		Side2  ,string
-        // c55
-  lastPx 
-    // c56
-  ,
-        // c57
-  InSym58  {  int16 OrderId 	 // c61a
-// c61b
-      ,	// c62a
-	// c62b
-    	Reject 	 // c63
-	  , // c64
-  i8 
-Qty 	 // c66
-
-	,
-
-    // c67
-	  i64 
-// c68
-  venue
-	, 
-f32	// c71
-	  Note	,// c73
-      }	// c74
-  , // c75a
-// c75b
-  char[] 
-
-// c76
-  count  // c77
-  ,
-	zchar[ 
-9 
-]// c81a
-  // c81b
-  	price
-        // c82
-	  ,  // c83
-  u16	// c84a
-
-// c84b
-Qty 
-
-    // c85
-
-,  
-      // c86
-match  // c87a
-  // c87b
-	  Qty  // c88
-
-  as  // c89
-  Body
-
-    // c90
-	{ // c91
-    69// c92a
-
-// c92b
-	  :  // c93
-	  Leg
-,  48 // c96a
-    // c96b
-    :// c97
-  	Trade  // c98a
-  // c98b
-  , 
-    // c99
-	51 
-	// c100
-    : // c101
-
-Reject// c102a
-  // c102b
-, // c103
-} 	 // c104
-
-	,u16
-	    // c106
-
-Acct	// c107
-    @calculatedFrom(// c108
-    	""CRC32"" // c109a
-	// c109b
-) ,	// c111a
-    // c111b
-
-  }
-")).
-Eval vm_compute in ("<<<M1537>>>" ++ check (runes_of_ascii "
-packet
-    As
-{@lengthOf(// c
-
-  u8x
-    )
-repeat
-
+Eval vm_compute in ("<<<M3546>>>" ++ check (runes_of_ascii "options { // c1
+LittleEndian // c2a
+  // c2b
+= // c3a
+  // c3b
+true // c4a
+  // c4b
+; // c5a
+  // c5b
+StringPrefixLenType // c6a
+  // c6b
+= // c7a
+  // c7b
 u32
-
-    T
-	,
-
-string
-	Foo
-@calculatedFrom( ""it's""
-    )`doc`,
-
-    @tag(
-        // a // b
-    // " ++ [27880; 37322]%N ++ runes_of_ascii "
-  00) 	 //
-    	@tag( 42 
-) repeatCount  {packetx{repeat  // @lengthOf(
-	f64
-x_y_z
-
-    `doc`//x
-	, 
-repeat 
+    // c8
+; ArrayPrefixLenType
+    // c10
+= // c11a
+  // c11b
+u16 // c12a
+  // c12b
+; } packet
+    // c15
+Party { // c17a
+  // c17b
+repeat // c18
+char[ // c19a
+  // c19b
+1 ] // c21a
+  // c21b
+seqNo
+    // c22
+, char[]
+    // c24
+Qty // c25
+, // c26
+zchar[ // c27
+2
+    // c28
+] tag7
+    // c30
+, } // c32
+packet Logon { Party // c36
+, char[] // c38
+msgKind // c39a
+  // c39b
+, repeat // c41a
+  // c41b
 char[
-    65535
-] crc,
-}	,
-    u16 A  ,
-    o @lengthOf(  MetaDataX
-)
-
-    `// not a comment`
-    ,
-repeat string
-    BodyLength	`
-` 
-	    /// triple
-	,
-}
-,repeatCount @lengthOf(	chars ) ,
-match  //	t
-    	uint8x
-as As 
-{ 007
-
-: 
-Packet""""  :
-
-Header
-3
-    :
-	zchar
-    7
-    // packet A { u8 x, }
-// " ++ [27880; 37322]%N ++ runes_of_ascii "
-  :u128  , [
-
-    4294967296 
-,
-    ""x y""  // " ++ [128512]%N ++ runes_of_ascii " emoji
-
-	]	:  crc
-[ 
-""1"",
-00  ] : 
-      //x
-		// @lengthOf(
-      int
-    ,
-
-    }
-	,
-	@lengthOf(
-
-Foo)repeat// " ++ [128512]%N ++ runes_of_ascii " emoji
-    	u  {
-string
-    float
-    // packet A { u8 x, }
-      /// triple
-    	, string
-
-matchKey @calculatedFrom(
-""it's"" // " ++ [128512]%N ++ runes_of_ascii " emoji
-)
-`it's`
-,repeat Packet  repeatCount  ,} ,  @lengthOf(
-T ) A 
-
-//x
-  @lengthOf(
-    rootA  // c
-    	)
-
-``
-
-, repeatCount 	 // " ++ [128512]%N ++ runes_of_ascii " emoji
-		@calculatedFrom( ""packet"" ) 
-,char[]x
-
-    // `tick` ""quote"" 'q'
-// packet A { u8 x, }
-		@calculatedFrom( ""abc""	)`crlf
-line`,}
+    // c42
+3 // c43
+]
+    // c44
+OrderId // c45a
+  // c45b
+, // c46
+} root // c48a
+  // c48b
 packet
-    i8i8 
-    // c
-// trailing space 
+    // c49
+Reject // c50a
+  // c50b
 {
-	}
-options	{MetaDataX = true
-	;	//x
-charz  =
-    true;
-}
-")).
-Eval vm_compute in ("<<<M154>>>" ++ check (runes_of_ascii "root packet // packet A { u8 x, }
-a1 {
-    // " ++ [27880; 37322]%N ++ runes_of_ascii "
-    repeat leftPad {
-    // a // b
-    lengthOf
-, }
-    ,
-    @tag(// c
-0123456789)int64 repeatCount ``,	match
-int as len {
-1 : repeatCount , """" : lengthOf,
-[
-""a\""b""
-    , 255,
-7 ,""it's"" ,255,
-    00 , 7 , ""`tick`""
-    //
-    ]
-    : msg_type , 42 :body
-    ,
-    } ,
-    repeat asx { charz { char[ 007 ]f32a ,
-    // a // b
-    } ,match
-    u as
-    Z9_ { """ ++ [233]%N ++ runes_of_ascii "t" ++ [233]%N ++ runes_of_ascii """ : float
+    // c51
+zchar[ 5 ] // c54
+lastPx , // c56
+InFlags86 // c57a
+  // c57b
+{ Party // c59a
+  // c59b
 ,
-    // c
-    ""1""
-: Pad , [
-    """", 10 ] // packet A { u8 x, }
-: Header , [ 42 ]: repeatCount , 00// a // b
-: T , } , } ,
-@rightPad ( ' ' )
-falsey,
-    @tag( 0) @calculatedFrom(	""1"" )
-@leftPad (
-    '\x00') o , }
-    MetaData i64_{ } packet x{
-@lengthOf( Header) repeat
-msg_type {
-    repeat char[ 0123456789 ] u,
-    // packet A { u8 x, }
-    uint32
-BodyLength	@lengthOf( _x) `crlf
-line` , },} MetaData Header { Header
-    options1,
-    f32a
-stringy ,
-    char[] uint8x `a\` , char[ // trailing space 
+    // c60
+string // c61
+OrderId // c62a
+  // c62b
+,
+    // c63
+repeat // c64
+InFlags75
+    // c65
+{ // c66
+repeat // c67a
+  // c67b
+string
+    // c68
+Side2 // c69a
+  // c69b
+, // c70
+uint8 // c71a
+  // c71b
+Flags // c72a
+  // c72b
+, zchar[ 8
+    // c75
+]
+    // c76
+Ref ,
+    // c78
+repeat // c79a
+  // c79b
+char[ 4 // c81a
+  // c81b
+] // c82
+Tail , // c84a
+  // c84b
+repeat char[ // c86
 1
-    // packet A { u8 x, }
-    ] u128, i32 Z9_
-    ,
-    float32 // a // b
-msg_type,
-    }
-
+    // c87
+] // c88a
+  // c88b
+price , // c90
+} // c91a
+  // c91b
+, // c92
+}
+    // c93
+,
+    // c94
+InMsgkind60 { // c96a
+  // c96b
+repeat
+    // c97
+string // c98
+lastPx
+    // c99
+, // c100
+u32 // c101
+msgKind // c102
+, // c103a
+  // c103b
+zchar[ // c104a
+  // c104b
+9
+    // c105
+] // c106
+tag7 // c107
+, // c108
+zchar[ 1 ] seqNo , // c113a
+  // c113b
+u64 // c114a
+  // c114b
+OrderId // c115a
+  // c115b
+,
+    // c116
+} ,
+    // c118
+zchar[ // c119a
+  // c119b
+6 // c120a
+  // c120b
+] Note
+    // c122
+, repeat
+    // c124
+InF148 // c125
+{ // c126
+char[ // c127
+7 // c128
+] sym // c130
+, // c131a
+  // c131b
+} , // c133a
+  // c133b
+zchar[ 9 // c135a
+  // c135b
+] // c136a
+  // c136b
+clOrdID // c137
+, // c138a
+  // c138b
+u8 Ref , // c141
+match // c142
+Ref // c143a
+  // c143b
+as
+    // c144
+Body {
+    // c146
+[ // c147a
+  // c147b
+81 , // c149
+118 // c150a
+  // c150b
+] // c151a
+  // c151b
+: // c152
+Party , // c154
+104 // c155a
+  // c155b
+: Logon // c157a
+  // c157b
+,
+    // c158
+} // c159
+, }
+    // c161
 ")).
-Eval vm_compute in ("<<<M1688>>>" ++ check (runes_of_ascii "packet chars {
-    int32 trueish,
-    match Pad as repeatCount {
-        [0] : Pad,
-        /// triple
-        3 : Foo,
-        ""abc"" : i64_,
-        [255, 3] : Packet,
-        [0123456789, ""// no comment""] : Packet,
-    },// c
-    match a1 as u {
-        [""abc"", """ ++ [233]%N ++ runes_of_ascii "t" ++ [233]%N ++ runes_of_ascii """, """", 0, 255] : u,
-    },
-    @tag(10)
-    match a1 as a1 {
-        [42] : packetx,
-    },
-    @lengthOf(As)
-    repeat char[0123456789] repeatCount `tab	here`,
-    string o `crlf
-    line`,
-    //x
-    // a // b
-    As @lengthOf(i8i8),
-    string repeatCount @lengthOf(u128),
-    //
+Eval vm_compute in ("<<<M3610>>>" ++ check (runes_of_ascii "packet packetx {
     @tag(00)
-    repeat pack Logon,
+    float32 calculatedFrom,
+    packetx,
+    BodyLength,
+    @calculatedFrom(""1"")
+    //
+    //	t
+    char[65535] Foo,
+    repeat char[3] x_y_z,
+    @calculatedFrom(""" ++ [128512]%N ++ runes_of_ascii """)
+    repeat Pad,
+    @rightPad(' ')
+    char[] pack `line1
+    line2`,
+    u8x,// c
+    int32 packetx,
+    falsey,
 }
 
-root packet Foo {
-    @tag(1)
-    char[3] i64_,
-    f32 charz,// `tick` ""quote"" 'q'
-    i8 zchar @lengthOf(MetaDataX),
-    @tag(007)
-    u8 _x,
-    @tag(255)
-    msg_type @calculatedFrom(""`tick`"") `doc`,
-    @calculatedFrom(""" ++ [233]%N ++ runes_of_ascii "t" ++ [233]%N ++ runes_of_ascii """)
-    match len as As {
-        ""// no comment"" : falsey,
+packet asx {
+}
+
+packet i8i8 {
+    char[0123456789] charz @lengthOf(_x),
+    repeat repeatCount `u8 x,`,
+    repeat options1,
+    x,
+    @lengthOf(As)
+    match pack as BodyLength {
+        /// triple
+        ""1"" : tag,
+        [65535] : msg_type,
+        [""`tick`""] : falsey,
+        ""// no comment"" : u128,
+    },
+    match len as Z9_ {
+        [""a	b"", 10] : Foo,
+        255 : int,
+        0123456789 : tag,
+        1 : metadata,
+        [00, 4294967296, """ ++ [28040; 24687]%N ++ runes_of_ascii """] : roots,
+        [42, 4294967296, 10, 00, 4294967296] : int,
+    },
+    @calculatedFrom(""{,}"")
+    // 50% %s
+    repeat _x {
+        tag ``,// a // b
+    },
+    @lengthOf(BodyLength)
+    zchar @lengthOf(msg_type) `" ++ [233]%N ++ runes_of_ascii "`,
+    match string_ as zchar {
+        42 : MetaDataX,
+        [""abc"", ""\" ++ [233]%N ++ runes_of_ascii """] : tag,
+        007 : charz,
+        ["""", ""// no comment""] : u128,
+        [""1"", """ ++ [128512]%N ++ runes_of_ascii """] : Foo,
     },
 }
 
-MetaData leftPad {
-    x i8i8,
-}//")).
-Eval vm_compute in ("<<<M1909>>>" ++ check (runes_of_ascii "packet options1 {
-    @leftPad()
-    @calculatedFrom(""\n"")
-    @leftPad(' ')
-    chars T `say ""hi""`,
-    // @lengthOf(
-    repeat zchar {
-        metadata {
-            // @lengthOf(
-            // c
-            match A as x_y_z {
-                ""1"" : string_,
-                // @lengthOf(
-                [""// no comment"", 10] : Foo,
-                ""a\\"" : Packet,
-                [""a	b"", 65535] : x,
-            },
+packet _x {
+    A {
+        Z9_ @lengthOf(u),
+    },
+    @lengthOf(T)
+    @tag(00)
+    char[] i8i8 @lengthOf(f32a),
+    repeat Z9_ {
+        lengthOf {
+            rootA,
+            repeat len i8i8 `// not a comment`,// packet A { u8 x, }
+            i8i8 @lengthOf(string_) `" ++ [28040; 24687; 31867; 22411]%N ++ runes_of_ascii "`,
+            char[10] chars `two words`,
+        },
+        repeat string o,
+    },
+    crc @calculatedFrom(""1""),//
+}
+
+packet Foo {
+    @calculatedFrom(""\" ++ [233]%N ++ runes_of_ascii """)
+    pack u128 `tab	here`,
+    /// triple
+    int64 lengthOf @calculatedFrom(""// no comment"") `a\`,
+    match MetaDataX as roots {
+        0 : a1,
+    },
+}")).
+Eval vm_compute in ("<<<M4218>>>" ++ check (runes_of_ascii "root packet trueish {
+    @tag(00)
+    repeat char[] _x,
+    repeat float32 Packet `
+        `,
+    @calculatedFrom(""" ++ [233]%N ++ runes_of_ascii "t" ++ [233]%N ++ runes_of_ascii """)
+    matchKey a1,
+    u128,
+    @calculatedFrom(""x y"")
+    a1 {
+        roots {
+            match packetx as a1 {
+                [0123456789, 0123456789] : tag,
+                ""\n"" : uint8x,
+                00 : Z9_,
+                ""\" ++ [233]%N ++ runes_of_ascii """ : i64_,
+                // trailing space 
+                [""// no comment"", ""`tick`""] : asx,
+            },// `tick` ""quote"" 'q'
         },
     },
-    @rightPad()
-    f32 msg_type,
-    match f32a as body {
-        [
-            ""`tick`"", ""\n"", ""a	b"", ""{,}"", 255,
-            ""x y"", 3
-        ] : x,
-        ""CRC32"" : zchar,
-        ""x y"" : rootA,
-        // `tick` ""quote"" 'q'
-        [00, ""it's"", 4294967296, ""CRC32""] : roots,
-        4294967296 : Logon,
+    @lengthOf(trueish)
+    //
+    repeat uint8 Foo `
+        `,
+    @calculatedFrom(""{,}"")
+    i8i8 f32a,
+    repeat MetaDataX o `// not a comment`,
+}
+
+options {
+}
+
+packet matchKey {
+    @tag(42)
+    @lengthOf(metadata)
+    options1 `tab	here`,
+    int64 trueish @lengthOf(asx) `a\`,
+    @lengthOf(chars)
+    f32 u8x @calculatedFrom(""// no comment""),
+}
+
+packet f32a {
+    zchar[42] Pad @lengthOf(repeatCount),
+    @leftPad('\x00')
+    uint64 string_ `a\`,
+    @calculatedFrom(""CRC32"")
+    char MetaDataX,
+    repeat zchar[00] body,
+    repeat trueish {
+        matchKey MetaDataX `u8 x,`,
+        repeat u32 u8x `it's`,
     },
-    @leftPad('0')
-    pack `crlf
-        line`,
+    char[255] u128,
+    BodyLength @lengthOf(asx) `it's`,// a // b
+    string MetaDataX @calculatedFrom(""packet""),// packet A { u8 x, }
+    match lengthOf as metadata {
+        ""{,}"" : MetaDataX,
+    },
+    @rightPad('\x00')
+    i16 A,
+}
+
+packet _x {
+    // packet A { u8 x, }
+    @lengthOf(_x)
+    @lengthOf(u128)
+    @rightPad('\x00')
+    zchar[4294967296] charz,
 }")).
-Eval vm_compute in ("<<<M1438>>>" ++ check (runes_of_ascii "options {
-    LittleEndian = false;
-    StringPrefixLenType = u16;
-    ArrayPrefixLenType = u32;
+Eval vm_compute in ("<<<M464>>>" ++ check (runes_of_ascii "packet
+rootA
+{ msg_type
+    { calculatedFrom Foo, // " ++ [128512]%N ++ runes_of_ascii " emoji
+Logon // a // b
+{o
+    ,
+    // " ++ [128512]%N ++ runes_of_ascii " emoji
+    repeat
+As { crc , zchar[ 1
+    ] roots
+    @lengthOf(tag ) ,} ,
+_x
+    o	,  } , zchar[007]	x_y_z ,
+uint16 trueish
+, }
+,zchar[ //
+42 ]
+    Packet @calculatedFrom(	""" ++ [28040; 24687]%N ++ runes_of_ascii """ )`doc` , float
+    BodyLength	, @tag( 65535 )Logon // `tick` ""quote"" 'q'
+@calculatedFrom( ""a	b"")
+    , repeat
+matchKey _x`100% of %d` ,
+    // a // b
+    @calculatedFrom(
+    """ ++ [28040; 24687]%N ++ runes_of_ascii """ )len u8x ,
+}packet falsey {@lengthOf(//x
+rootA ) char[]
+    i64_	@lengthOf( BodyLength	) , // 50% %s
+@tag( //x
+00 )
+    @lengthOf( u8x)  @leftPad ( ) stringy a1//	t
+,
+repeat pack {match  Logon  as A{ ""\n"" //
+: x ,  } , // @lengthOf(
+pack	u8x
+,match  Logon
+    as A	{10
+:uint8x , }
+, } ,
+    @calculatedFrom( ""`tick`""
+)
+//
+/// triple
+@tag( 255
+) @calculatedFrom(
+    // @lengthOf(
+    ""it's""
+)
+    match x_y_z as body
+{ ""\" ++ [233]%N ++ runes_of_ascii """ :u // " ++ [128512]%N ++ runes_of_ascii " emoji
+[ ""x y""
+    , 10
+]  : u8x ,// " ++ [27880; 37322]%N ++ runes_of_ascii "
+""// no comment"":crc ,[  ""x y"" // c
+,
+    // trailing space 
+    0123456789
+]:crc ""a\\"" : tag , //
+""" ++ [233]%N ++ runes_of_ascii "t" ++ [233]%N ++ runes_of_ascii """ : leftPad
+,
+// @lengthOf(
+// `tick` ""quote"" 'q'
+}
+    ,@lengthOf(
+f32a	)
+@rightPad ( ) char[7 ] chars
+    @lengthOf( // trailing space 
+packetx ) ,// 50% %s
+@tag( 3 ) f32 // @lengthOf(
+Packet
+`line1
+line2`
+,  @tag( 3 )	repeat zchar[ 00]
+    lengthOf,
+    }
+// @lengthOf(
+")).
+Eval vm_compute in ("<<<M1133>>>" ++ check (runes_of_ascii "MetaData u
+    { /// triple
+} MetaData repeatCount {} root packet asx	{// trailing space 
+@calculatedFrom( """ ++ [28040; 24687]%N ++ runes_of_ascii """ ) body
+f32a ,
+uint16 stringy , /// triple
+calculatedFrom{match metadata
+as
+    rootA { ""{,}"" :roots
+,""x y"":
+i8i8
+""\n"" : Foo// `tick` ""quote"" 'q'
+,65535  : pack , [3
+,
+    //	t
+    10
+, ""1"",
+42 ,	""\n""	,
+// @lengthOf(
+// 50% %s
+""a	b"" // c
+,
+    // " ++ [128512]%N ++ runes_of_ascii " emoji
+    ""1"" ]
+: packetx ,
+3 :
+    // " ++ [128512]%N ++ runes_of_ascii " emoji
+    MetaDataX , },
+repeat rootA { options1
+,
+} , zchar[
+255// c
+] roots `" ++ [28040; 24687; 31867; 22411]%N ++ runes_of_ascii "` ,
+char[42 ] roots , }, repeat zchar , match i64_ as
+stringy
+{//	t
+00 :roots
+    ,
+[ 0 ,/// triple
+""" ++ [233]%N ++ runes_of_ascii "t" ++ [233]%N ++ runes_of_ascii """ , //
+255 , ""\n"" , 255, ""a\""b""
+,
+1 , 0123456789
+    // " ++ [27880; 37322]%N ++ runes_of_ascii "
+    ]
+: stringy ,42  :metadata""// no comment""
+: trueish
+    [ ""\" ++ [233]%N ++ runes_of_ascii """ , 10
+    ] : u128 , } , match u8x
+as
+    int	{ 255 : string_ ,""it's"" :
+options1,
+    } , match metadata as BodyLength {""\n"" : o,	42 : int
+} , @rightPad (	'\x00')	roots
+MetaDataX
+,
+u32 Pad	,
+string
+repeatCount`" ++ [233]%N ++ runes_of_ascii "` , } options { Pad	=
+char[ 42 ] ; Foo = char[]
+;
+/// triple
+//x
+roots
+    = ""`tick`""
+    ;
+    }packet
+int {	@leftPad ( '0' )@tag(4294967296 )  u8x @lengthOf(
+    matchKey	)
+    `line1
+line2`, int16 packetx  `say ""hi""` , Z9_ `u8 x,`, // 50% %s
+uint8 i64_ , Header chars ,
+    }")).
+Eval vm_compute in ("<<<M4202>>>" ++ check (runes_of_ascii "
+// top
+	options	// c0a
+    	// c0b
+  	{// c1a
+    // c1b
+StringPrefixLenType =	// c3a
+
+  // c3b
+    	u32;// c5a
+    // c5b
+  FixedStringPadFromLeft 	 // c6
+= 	 // c7a
+		// c7b
+  	false
+
+    ; 
+// c9
+    } // c10
+	packet// c11
+	Logout 
+	// c12
+    	{ 	 // c13
+	f64
+
+    Flags// c15a
+  // c15b
+	, 	 // c16a
+    // c16b
+		repeat  // c17a
+
+// c17b
+	InTail1// c18a
+	  // c18b
+    { // c19
+int32	// c20a
+	// c20b
+	  Flags 	 // c21a
+
+// c21b
+
+,// c22a
+  	// c22b
+zchar[ // c23a
+  	// c23b
+    1 
+      // c24
+    ]  // c25a
+  // c25b
+	tag7 
+,  }// c28a
+  	// c28b
+	,// c29
+repeat// c30
+      string
+    // c31
+	x 	 // c32a
+  // c32b
+	, 	 // c33a
+  // c33b
+} 
+root 	 // c35a
+
+  // c35b
+packet  Trade
+{
+repeat
+
+    f32	// c40a
+// c40b
+  Acct 	 // c41a
+  // c41b
+	, 	 // c42
+InTail62  
+      // c43
+    {	// c44
+u32  // c45a
+  // c45b
+    Qty// c46
+  ,  zchar[ // c48
+1  // c49a
+  // c49b
+	] 
+      // c50
+    	x// c51a
+    // c51b
+
+	,
+    }	// c53a
+  // c53b
+	  ,  // c54
+	  repeat	// c55
+    string  Side2 
+        // c57
+  ,  // c58
+    u16 // c59
+  	Ref	// c60
+		,// c61a
+    // c61b
+    	}	// c62a
+	// c62b")).
+Eval vm_compute in ("<<<M13>>>" ++ check (runes_of_ascii "packet
+BodyLength{
+matchKey
+    { chars
+    , match // 50% %s
+leftPad as options1{ 42
+    // " ++ [27880; 37322]%N ++ runes_of_ascii "
+    :
+u , // `tick` ""quote"" 'q'
+0 :T
+, }
+    , char[]  Header `line1
+line2`
+    // trailing space 
+    ,
+    } ,  @tag(/// triple
+10) zchar  {
+repeat /// triple
+_x { i8i8 , }	, zchar[	00
+    ] // `tick` ""quote"" 'q'
+len	@lengthOf( u128
+) // " ++ [128512]%N ++ runes_of_ascii " emoji
+, //	t
+repeat options1 // @lengthOf(
+,repeat Pad
+{
+    int64 roots `
+` ,u64 //
+Header @lengthOf( tag ) ,uint16 roots
+@calculatedFrom(
+""" ++ [28040; 24687]%N ++ runes_of_ascii """ )
+    , match rootA as matchKey
+{
+    1	: BodyLength[""1"" ] :
+    Z9_  ""it's"" : // packet A { u8 x, }
+Packet 0 :stringy ,
+} , } , } ,
+    // `tick` ""quote"" 'q'
+    @lengthOf(Logon )x
+    pack
+,
+    //
+    @tag( 65535
+) // packet A { u8 x, }
+repeat
+o Header `u8 x,`
+    ,
+Header u8x `doc`, @tag( 42 ) // packet A { u8 x, }
+char[// " ++ [128512]%N ++ runes_of_ascii " emoji
+0123456789 ]
+    lengthOf
+    ,
+float{
+    // c
+    f32a
+As , repeat matchKey
+`{ , }` ,
+// 50% %s
+// " ++ [128512]%N ++ runes_of_ascii " emoji
+}
+, repeat char[]// " ++ [27880; 37322]%N ++ runes_of_ascii "
+o , @tag(
+1 ) options1 @calculatedFrom(
+""a	b"") `100% of %d`	, float32 int@lengthOf(
+calculatedFrom) , }
+")).
+Eval vm_compute in ("<<<M1019>>>" ++ check (runes_of_ascii "packet roots
+{
+i32
+trueish `crlf
+line` , zchar[
+    4294967296
+]
+    // " ++ [128512]%N ++ runes_of_ascii " emoji
+    u128 `100% of %d` , @rightPad
+    (
+    ) charz
+    { i64_	`tab	here` ,
+// a // b
+// a // b
+i16 len @calculatedFrom( ""x y""),
+    leftPad
+`it's`
+    ,	}
+    ,char[] calculatedFrom , char[65535
+]
+    int  @calculatedFrom( ""a\""b"")
+`doc` ,@calculatedFrom( ""abc""
+    )i8
+Pad @lengthOf(
+    falsey ), @lengthOf(	A ) int16 Header  @lengthOf( repeatCount // trailing space 
+) , i8
+// 50% %s
+/// triple
+i8i8 @calculatedFrom( ""{,}""
+) , }
+root packet
+trueish{
+MetaDataX{
+match
+//x
+// " ++ [27880; 37322]%N ++ runes_of_ascii "
+uint8x
+    // trailing space 
+    as BodyLength {
+    65535 : roots
+, },
+//	t
+// " ++ [27880; 37322]%N ++ runes_of_ascii "
+zchar[
+    // 50% %s
+    10 ] uint8x@lengthOf(
+string_ )`" ++ [28040; 24687; 31867; 22411]%N ++ runes_of_ascii "` , // packet A { u8 x, }
+char[
+0]trueish `100% of %d` , Pad
+    @calculatedFrom( ""\n"" ) ,}
+// 50% %s
+// packet A { u8 x, }
+,
+}
+// @lengthOf(
+// " ++ [128512]%N ++ runes_of_ascii " emoji
+options { // a // b
+packetx = //
+""a\""b"" ; metadata
+// " ++ [128512]%N ++ runes_of_ascii " emoji
+// @lengthOf(
+=int32; float
+=char[]; i64_
+=
+    10 ;Pad
+= false
+}")).
+Eval vm_compute in ("<<<M4535>>>" ++ check (runes_of_ascii "// " ++ [27880; 37322]%N ++ runes_of_ascii "
+packet chars {
+    // c
+}
+
+packet Z9_ {
+    falsey @calculatedFrom(""x y"") `// not a comment`,
+    string Foo @calculatedFrom(""""),
+    repeat o i64_,
+    @tag(0123456789)
+    repeat uint16 T,
+    match trueish as MetaDataX {
+        0123456789 : MetaDataX,
+        3 : trueish,
+        // `tick` ""quote"" 'q'
+        [42, 7] : u8x,
+        /// triple
+        ""1"" : Z9_,
+    },
+    uint32 zchar,
+    As {
+        Z9_,
+        Z9_ {
+            //
+            zchar[7] float `it's`,
+            Z9_ @lengthOf(options1),
+            stringy @lengthOf(i64_),/// triple
+        },
+        u8 metadata `u8 x,`,
+    },
+    @calculatedFrom(""x y"")
+    @calculatedFrom(""" ++ [28040; 24687]%N ++ runes_of_ascii """)
+    @lengthOf(int)
+    match float as matchKey {
+        7 : rootA,
+    },
+    @calculatedFrom(""" ++ [128512]%N ++ runes_of_ascii """)
+    repeat string Logon,
+}
+
+options {
+    metadata = float32
+    packetx = true;
+    Foo = '\x00';
+    A = u16;
+}
+
+MetaData crc {
+    // " ++ [27880; 37322]%N ++ runes_of_ascii "
+    int8 uint8x,
+    zchar[0] A,
+}")).
+Eval vm_compute in ("<<<M3986>>>" ++ check (runes_of_ascii "// c
+      MetaData options1
+
+    {
+Pad 
+body
+	,	int64 As,	uint8
+f32a
+`" ++ [233]%N ++ runes_of_ascii "`	,/// triple
+		char 
+	    // trailing space 
+	repeatCount
+
+,  } 
+root
+packet  calculatedFrom  // @lengthOf(
+  {	match  Packet as calculatedFrom { 3
+//
+:  lengthOf , [  65535] 
+:
+roots,  //
+    0123456789
+	:	// trailing space 
+
+  A	, 42
+
+    :  // c
+
+  Logon, [ 
+65535
+	] :	i64_[	007 , 4294967296	] : o, 
+}
+, 
+}packet BodyLength {
+
+    @tag(// trailing space 
+    	007)
+    @tag(0123456789
+
+)
+
+match
+	Pad as// 50% %s
+
+  i8i8 
+{	""" ++ [233]%N ++ runes_of_ascii "t" ++ [233]%N ++ runes_of_ascii """:	chars
+
+,
+4294967296
+
+    :	A , 10
+: x 	 //	t
+,
+""" ++ [233]%N ++ runes_of_ascii "t" ++ [233]%N ++ runes_of_ascii """:	crc
+
+    ""\n"" 
+: options1, }	// " ++ [27880; 37322]%N ++ runes_of_ascii "
+  , 
+}  packet
+
+    matchKey 
+        //
+
+  // packet A { u8 x, }
+    { u8
+repeatCount
+,repeat
+zchar[ 
+0123456789 ] 
+stringy
+	, 
+@leftPad
+
+    (
+    )	@tag(
+
+    10	)
+    @tag(255 
+      // `tick` ""quote"" 'q'
+
+)
+    //
+    	// 50% %s
+	options1 
+@lengthOf(
+
+x_y_z	) 
+,
+}
+")).
+Eval vm_compute in ("<<<M786>>>" ++ check (runes_of_ascii "options
+    { options1 =
+    // a // b
+    0
+; u= true _x =
+    true;	uint8x= false
+    ; } packet falsey  { }	packet falsey
+{
+    repeat zchar[
+00 ] len	,
+    // " ++ [27880; 37322]%N ++ runes_of_ascii "
+    } packet u128 {  len
+    //	t
+    `100% of %d`
+, // " ++ [27880; 37322]%N ++ runes_of_ascii "
+uint8	roots `{ , }`,
+    @rightPad (
+    ' ' // @lengthOf(
+)	repeat int,@calculatedFrom( ""// no comment""
+    ) Header @calculatedFrom(  """ ++ [233]%N ++ runes_of_ascii "t" ++ [233]%N ++ runes_of_ascii """
+    ) , string
+    roots ,
+    repeat Pad
+{ char[]i64_ @lengthOf( //	t
+lengthOf
+//x
+/// triple
+)
+    // trailing space 
+    `" ++ [28040; 24687; 31867; 22411]%N ++ runes_of_ascii "`,
+char body, i8 a1
+@lengthOf( o ) ,
+    } , match x_y_z
+/// triple
+// @lengthOf(
+as roots { [ ""CRC32"" ,	""a\\"" ]  :
+    MetaDataX, 7 : repeatCount , ""// no comment"" : T [// @lengthOf(
+007
+, ""\" ++ [233]%N ++ runes_of_ascii """] // 50% %s
+: _x ,
+    //	t
+    [ """ ++ [28040; 24687]%N ++ runes_of_ascii """ ,
+    ""abc"" ] : u ,  [ """" //
+]
+:
+    i8i8 // `tick` ""quote"" 'q'
+}
+, // " ++ [128512]%N ++ runes_of_ascii " emoji
+int64 repeatCount `// not a comment` , }
+")).
+Eval vm_compute in ("<<<M564>>>" ++ check (runes_of_ascii "MetaData body	{ // packet A { u8 x, }
+rootA i8i8
+`// not a comment` , uint64 rootA , // " ++ [128512]%N ++ runes_of_ascii " emoji
+string metadata
+,i64 pack, }	MetaData // packet A { u8 x, }
+stringy
+{	}
+// @lengthOf(
+// " ++ [128512]%N ++ runes_of_ascii " emoji
+packet uint8x{ lengthOf{f64 body @calculatedFrom(
+""x y""), /// triple
+repeat o u8x , repeatCount@lengthOf( x // 50% %s
+)
+    // trailing space 
+    `// not a comment` ,
+    //	t
+    repeat
+    char[ 4294967296] Header ,}
+, @lengthOf(len // `tick` ""quote"" 'q'
+) x_y_z @lengthOf(
+    zchar )
+, repeat char[
+00
+    ] Packet ,char string_
+,	@tag(
+10
+    )
+    T
+@calculatedFrom( """ ++ [28040; 24687]%N ++ runes_of_ascii """	)
+    , @rightPad ('\x00'
+)
+// `tick` ""quote"" 'q'
+// a // b
+calculatedFrom@calculatedFrom(  ""\" ++ [233]%N ++ runes_of_ascii """) //x
+,}
+options { roots
+=
+    // trailing space 
+    int32 ;	a1 =
+""\n"" ;
+charz
+= '\x00';f32a // @lengthOf(
+=
+"""" ; }  options // " ++ [27880; 37322]%N ++ runes_of_ascii "
+{ }")).
+Eval vm_compute in ("<<<M770>>>" ++ check (runes_of_ascii "packet o { @lengthOf( metadata )match repeatCount //	t
+as  repeatCount {
+    """ ++ [233]%N ++ runes_of_ascii "t" ++ [233]%N ++ runes_of_ascii """ : options1
+// " ++ [27880; 37322]%N ++ runes_of_ascii "
+// `tick` ""quote"" 'q'
+}
+,
+@calculatedFrom(
+    ""abc"" )@lengthOf( string_ )@leftPad
+( ' ' // c
+)
+match u128 as
+calculatedFrom{
+255:// " ++ [27880; 37322]%N ++ runes_of_ascii "
+a1 ""packet"" :BodyLength ,
+// " ++ [27880; 37322]%N ++ runes_of_ascii "
+//x
+""""
+    :
+Pad,
+[
+    ""CRC32"" ,
+3 // a // b
+,65535 , 1  , 255 ,
+// a // b
+// 50% %s
+""packet"" ,""\" ++ [233]%N ++ runes_of_ascii """, ""a	b"" ]
+    :
+// a // b
+// @lengthOf(
+len	,
+7: asx // " ++ [27880; 37322]%N ++ runes_of_ascii "
+,
+255 : crc ,}
+, }
+    MetaData stringy
+    // trailing space 
+    { } // @lengthOf(
+root
+    // " ++ [128512]%N ++ runes_of_ascii " emoji
+    packet metadata { @calculatedFrom( """"
+) string calculatedFrom, Pad @calculatedFrom( // @lengthOf(
+""" ++ [128512]%N ++ runes_of_ascii """ )
+// `tick` ""quote"" 'q'
+// " ++ [27880; 37322]%N ++ runes_of_ascii "
+,
+u64 roots	,char[
+    255 ]
+// 50% %s
+// " ++ [128512]%N ++ runes_of_ascii " emoji
+u@calculatedFrom(""// no comment""
+    ) , }
+//	t
+")).
+Eval vm_compute in ("<<<M1206>>>" ++ check (runes_of_ascii "MetaData o { u128 a1 , _x trueish	`crlf
+line`
+,chars i64_
+,uint8x//
+repeatCount , T	Pad	`a\`,zchar[ 65535
+    /// triple
+    ]Foo , }
+    packet roots
+{ zchar[ 7 ] zchar
+`` , float `" ++ [233]%N ++ runes_of_ascii "` ,@lengthOf( //	t
+float ) @lengthOf(
+charz) repeat a1 ,
+@tag( //
+42
+) char[]
+    //
+    crc,
+// `tick` ""quote"" 'q'
+//	t
+@rightPad	(
+// packet A { u8 x, }
+//	t
+)trueish `it's` ,@tag( 65535 )
+    /// triple
+    repeat float32	pack
+, @tag(
+    7
+) string packetx  ``  , match Packet as BodyLength { ""\n"" : u ,
+    }
+, }
+    options{u128 = u16 // packet A { u8 x, }
+}
+    packet calculatedFrom // c
+{i16
+rootA `two words`
+,
+// `tick` ""quote"" 'q'
+// trailing space 
+} options
+    {
+    roots =
+    1 a1  ='\x00' ;// 50% %s
+Packet
+=  i8 ; // @lengthOf(
+}
+")).
+Eval vm_compute in ("<<<M3573>>>" ++ check (runes_of_ascii "options {
+    StringPrefixLenType = u64;
+    ArrayPrefixLenType = u8;
+    FixedStringPadFromLeft = true;
+    FixedStringPadChar = '0';
+}
+packet Ack {
+    @rightPad('0') char[7] Px,
+    u64 msgKind,
+    i8 x,
+}
+packet Party {
+    i8 sym,
+    repeat Ack,
+    repeat InPx10 {
+        repeat Ack,
+        zchar[1] Ref,
+        uint64 Qty,
+        u16 tag7,
+    },
+    int8 clOrdID,
+}
+packet Fill {
 }
 packet Order {
-    uint8 x,
-    repeat string venue,
 }
-packet Heartbeat {
-    i64 count,
-    zchar[1] Qty,
-    repeat InX29 {
-        InSeqno26 {
-            int64 f1,
-            char[5] Acct,
-            Order,
-        },
-        repeat InSide285 {
-            repeat Order,
-            char[10] Px,
-            zchar[9] OrderId,
-        },
-        char[] venue,
-        Order,
-    },
-    @rightPad('\x00') char[4] clOrdID,
-}
-root packet Party {
-    zchar[3] f1,
+root packet Quote {
+    Order,
+    @leftPad('0') char[1] Side2,
+    string venue,
+    char[7] lastPx,
+    u16 tag7,
     u32 clOrdID,
-    u32 Px @lengthOf(Body),
     match clOrdID as Body {
-        [180, 64] : Heartbeat,
-        11 : Order,
+        30 : Order,
+        196 : Party,
+        10 : Fill,
+        28 : Ack,
     },
-    u32 Side2 @calculatedFrom(""CRC32""),
+    u32 sym @calculatedFrom(""CR\
+C32""),
 }
 ")).
-Eval vm_compute in ("<<<M28>>>" ++ check (runes_of_ascii "root
-// c
-// packet A { u8 x, }
-packet
-    // packet A { u8 x, }
-    f32a {@rightPad ()// packet A { u8 x, }
-options1 ,uint64
-    MetaDataX ,
-x_y_z `two words` ,
-// packet A { u8 x, }
-// trailing space 
-i8i8
-    `" ++ [28040; 24687; 31867; 22411]%N ++ runes_of_ascii "` ,int16 f32a@lengthOf( zchar	) ,}
-//x
-//x
-root
-    packet u8x { @rightPad	(
-' ' ) repeat a1
-    { repeat string_ stringy  ,
-    } , stringy// `tick` ""quote"" 'q'
-a1
-`// not a comment` ,
-@tag(	4294967296 ) float64 o, @lengthOf(a1 )
-repeat string_ {
-    // `tick` ""quote"" 'q'
-    match BodyLength// trailing space 
-as int {65535:u
-, } , pack
-    options1`a\` ,
-repeat lengthOf	matchKey , }
-    , repeat
-char[65535 ] BodyLength
-    , }
-")).
-Eval vm_compute in ("<<<M1469>>>" ++ check (runes_of_ascii "// top
-packet // c0a
-  // c0b
-Sub // c1
-{ u8
-    // c3
-a , // c5a
-  // c5b
-u32 // c6a
-  // c6b
-SubSum
-    // c7
-@calculatedFrom( // c8
-""CRC16"" )
-    // c10
-, } root // c13
-packet Frame
-    // c15
-{ u16 MsgType
-    // c18
-, // c19a
-  // c19b
-u16
-    // c20
-BodyLen // c21
-@lengthOf( // c22
-Body // c23a
-  // c23b
-) // c24a
-  // c24b
-,
-    // c25
-Sub Body // c27
-, string
-    // c29
-note , // c31a
-  // c31b
-u32 // c32a
-  // c32b
-Checksum @calculatedFrom( ""CRC16""
-    // c35
+Eval vm_compute in ("<<<M853>>>" ++ check (runes_of_ascii "
+root packet falsey { @calculatedFrom(""1""	) //	t
+@tag( 3 ) float32 u @lengthOf(
+roots
 ) ,
-    // c37
-u8 // c38a
-  // c38b
-tail // c39a
-  // c39b
-, } // c41a
-  // c41b
-")).
-Eval vm_compute in ("<<<M11>>>" ++ check (runes_of_ascii "packet u128 {
-@rightPad ( )
-@tag( 7) stringy
-body , }// packet A { u8 x, }
-root
-    packet // " ++ [27880; 37322]%N ++ runes_of_ascii "
-i64_
-    { }
-    packet falsey	{
-float@lengthOf(_x //	t
-)`" ++ [233]%N ++ runes_of_ascii "`
-, i32 a1 ,
-u {//	t
-string	crc
-,  } ,@leftPad
+chars
+    BodyLength, @lengthOf(
+    // " ++ [27880; 37322]%N ++ runes_of_ascii "
+    BodyLength
+)	repeat i64_ T
+, int64 u
+    ,}  packet// `tick` ""quote"" 'q'
+Packet{
+@calculatedFrom( ""packet"" )char[  7
+    ] chars `" ++ [233]%N ++ runes_of_ascii "` , repeat i64_ `u8 x,`, }
+root packet MetaDataX
+    { @rightPad // `tick` ""quote"" 'q'
+(
+    ) @calculatedFrom(  ""a\""b""
+    ) @tag( 65535) chars @calculatedFrom( //
+""// no comment"") `// not a comment`  ,// `tick` ""quote"" 'q'
+@calculatedFrom(
+""it's"" ) @tag(  00 ) @lengthOf(
+i8i8) lengthOf ,
     // a // b
-    (
-)repeat
-    options1 { calculatedFrom @calculatedFrom(
-    ""it's"" ) `{ , }`	, zchar falsey `u8 x,` ,repeat falsey  , }
-// packet A { u8 x, }
-//x
-, }root // " ++ [128512]%N ++ runes_of_ascii " emoji
-packet pack
-    { @tag( 0123456789 ) // @lengthOf(
-repeat
-//
-// " ++ [27880; 37322]%N ++ runes_of_ascii "
-uint32
-roots, }")).
-Eval vm_compute in ("<<<M1845>>>" ++ check (runes_of_ascii "  packet
-
-    Pad 
-{	@leftPad ('0'
-	)
-
-    @calculatedFrom(
-
-""`tick`""
-)// @lengthOf(
-	match 
-i64_ 
-as
-x	{ 
-/// triple
-    00
-
-:
-
-zchar ,}
-	, i8i8
-	o  // " ++ [27880; 37322]%N ++ runes_of_ascii "
-      , char[]_x 
-,	repeat
-zchar[ 007 ]
-
-    trueish,
-zchar @lengthOf(
-trueish
-)
-	`{ , }` 
-, // c
-
-  @calculatedFrom( 
-""a\""b"" )	@tag( 1
-
-)	trueish zchar  ,char[3
-
-]  rootA
-
-@calculatedFrom(""a\""b""  )
-`tab	here` 
-    //	t
-    // trailing space 
-    ,  }
+    f32 x_y_z @lengthOf(
+A )
+, @lengthOf(
+uint8x ) repeat //x
+zchar[ 7
+    ]//
+uint8x , }
 ")).
-Eval vm_compute in ("<<<M1197>>>" ++ check (runes_of_ascii "// top
-packet // c0
-trueish // c1
-{ // c2
-repeat // c3
-u32 // c4
-MetaDataX // c5
-`doc` // c6
-, // c7
-Header // c8
-{ // c9
-packetx // c10
-o // c11
-`u8 x,` // c12
-, // c13
-} // c14
-, // c15
-@leftPad // c16
-( // c17
-'\x00' // c18
-) // c19
-repeat // c20
-char[ // c21
-0123456789 // c22
-] // c23
-repeatCount // c24
-, // c25
-} // c26
-packet // c27
-Packet // c28
-{ // c29
-} // c30
-")).
-Eval vm_compute in ("<<<M45>>>" ++ check (runes_of_ascii "
-packet stringy
-{	falsey @lengthOf( MetaDataX )`crlf
-line`
-,match tag as uint8x{
-""a\""b"" : charz
-    , 00 :
-    repeatCount , 10
-: Header
-    ""a	b""
-    /// triple
-    : Pad
-,65535
-    :
-metadata
-    ,
-},
-    @calculatedFrom( ""a\""b""
-    )
-    //x
-    char[
-    255 ]falsey , x_y_z
-@calculatedFrom(  ""packet"")
-    `tab	here` , }
-")).
-Eval vm_compute in ("<<<M265>>>" ++ check (runes_of_ascii "MetaData x { char[]crc , char[7 ]float, u64 //	t
-f32a	,}
-    packet
-int
-    {Pad/// triple
-@lengthOf(Pad )
-`{ , }`, }
-    MetaData
-/// triple
-//
-T {
-A
-i8i8`it's` ,
-u8x options1 , roots zchar // `tick` ""quote"" 'q'
-,	int16 u8x , char[] a1
-`say ""hi""`, char
-//	t
-/// triple
-Pad ,
-    } // a // b")).
-Eval vm_compute in ("<<<M1625>>>" ++ check (runes_of_ascii "packet
-    crc
-
-{ calculatedFrom  { 
-string_
-u
-	,
-rootA
-	calculatedFrom	, } // packet A { u8 x, }
-		,@lengthOf( len
-)match	//x
-  	roots 
-    /// triple
-	  as
-    x{  ""// no comment""
-: msg_type
+Eval vm_compute in ("<<<M1199>>>" ++ check (runes_of_ascii "// 50% %s
+packet  As{ @leftPad
+() char[ // trailing space 
+7 ] crc @lengthOf( u128 ) , repeat u8x zchar
 ,
-	7: calculatedFrom
-,
-
-}
-	,
-    }
-	packet  zchar 
+    repeatCount @lengthOf(// " ++ [27880; 37322]%N ++ runes_of_ascii "
+u ) `line1
+line2` , @lengthOf(// @lengthOf(
+asx ) u8x `crlf
+line`	, // @lengthOf(
+zchar
+, trueish ,u64 u128
+@lengthOf(
+    packetx )
+    `{ , }` , uint32  pack@calculatedFrom( ""\n"" ), @tag(
+    //
+    1)float32 len, @tag( 7 )float32 falsey// a // b
+, }
+root packet Foo { } MetaData zchar
 {
-
-    }
+BodyLength msg_type
+    , // " ++ [128512]%N ++ runes_of_ascii " emoji
+f32a _x , char[] roots,
+i16 asx
+,
+    // packet A { u8 x, }
+    } // `tick` ""quote"" 'q'
+packet lengthOf
+    {	@tag(0
+    // " ++ [27880; 37322]%N ++ runes_of_ascii "
+    )
+char[]	pack	`crlf
+line` , /// triple
+}
 ")).
-Eval vm_compute in ("<<<M312>>>" ++ check (runes_of_ascii "options {
-f32a= 3	;Logon
-    =
-    ""x y"";
-len
-=
-10	}packet string_ {@lengthOf( MetaDataX ) // c
-int32 f32a , _x @lengthOf( rootA) ,@rightPad ( ) stringy ,
-@tag( 0123456789 )
+Eval vm_compute in ("<<<M1216>>>" ++ check (runes_of_ascii "  packet Packet
+{ matchKey`tab	here` , @calculatedFrom( ""// no comment"")options1 `a\` , @tag( 65535
+) zchar[10
+]
+u128
+    `it's` , @lengthOf( repeatCount )repeat char[] Logon , len
+    //x
+    @lengthOf(leftPad
+) `100% of %d` , @lengthOf( charz
     // a // b
-    repeatCount @calculatedFrom( """ ++ [128512]%N ++ runes_of_ascii """
+    )
+@lengthOf(
+x_y_z )@leftPad ( '\x00' )// c
+trueish @lengthOf( string_
+) , repeat
+    zchar {
+repeat
+    char[	0 ]o // " ++ [27880; 37322]%N ++ runes_of_ascii "
+`100% of %d` , match
+Packet as f32a {  0 :/// triple
+a1,
+65535 :
+leftPad
+    // `tick` ""quote"" 'q'
+    } ,match rootA as
+    stringy	{ 42 //
+: _x ,
+} , repeat string float , } ,	char[
+42
+    ] charz @calculatedFrom( """ ++ [28040; 24687]%N ++ runes_of_ascii """
     ), }
 ")).
-Eval vm_compute in ("<<<M563>>>" ++ check (runes_of_ascii "options
-{
-matchKey = 42/// triple
-x='0' ;
-// packet A { u8 x, }
-//
-charz
-=
-// packet A { u8 x, }
-// trailing space 
-true  ; } MetaData BodyLength
-{
-uint8
-pack,zchar[ 1]float ,  float32 x_y_z `` ,u32
-_x,i16 body  , ""CRC32""
+Eval vm_compute in ("<<<M177>>>" ++ check (runes_of_ascii "packet
+    f32a { match /// triple
+zchar as
+float {	1: BodyLength , ""CRC32"": int	}, char[ 007 ] zchar@lengthOf(
+    /// triple
+    Z9_ // " ++ [27880; 37322]%N ++ runes_of_ascii "
+)`" ++ [233]%N ++ runes_of_ascii "` , // trailing space 
+} root
+packet  options1 {
+@lengthOf( charz )
+// c
+// @lengthOf(
+zchar[
+4294967296 ] Packet ``
+    ,
+@calculatedFrom( ""\" ++ [233]%N ++ runes_of_ascii """ ) @calculatedFrom(
+    ""a\""b"" ) @tag( 4294967296 ) char  asx ,
+    @lengthOf( msg_type ) @tag( 1	) u16 leftPad`u8 x,` , o	{	repeat
+int32 zchar
+    // " ++ [128512]%N ++ runes_of_ascii " emoji
+    , u128{ i8i8 rootA`a\`//
+, } ,
+} ,
+repeat i8 Logon `
+`	,
+@tag( 10
+)
+@tag( 7)
+repeat a1 u128 `100% of %d` ,packetx//	t
+i64_ , }
 ")).
-Eval vm_compute in ("<<<M417>>>" ++ check (runes_of_ascii "options
-{
-matchKey = 42/// triple
-x= ='0' ;
-// packet A { u8 x, }
-//
-charz
-=
-// packet A { u8 x, }
-// trailing space 
-true  ; } MetaData BodyLength
-{
-uint8
-pack,zchar[ 1]float ,  float32 x_y_z `` ,u32
-_x,i16 body  , }
-")).
-Eval vm_compute in ("<<<M543>>>" ++ check (runes_of_ascii "options
-{
-matchKey = 42/// triple
-x='0' ;
-// packet A { u8 x, }
-//
-charz
-=
-// packet A { u8 x, }
-// trailing space 
-true  ; } MetaData BodyLength
-{
-uint8
-pack,zchar[ 1]float ,  float32 x_y_z `` ,u32
-_x i16, body  , }
-")).
-Eval vm_compute in ("<<<M503>>>" ++ check (runes_of_ascii "options
-{
-matchKey = 42/// triple
-x='0' ;
-// packet A { u8 x, }
-//
-charz
-=
-// packet A { u8 x, }
-// trailing space 
-true  ; } MetaData BodyLength
-{
-uint8
-pack,zchar[ 1], float  float32 x_y_z `` ,u32
-_x,i16 body  , }
-")).
-Eval vm_compute in ("<<<M536>>>" ++ check (runes_of_ascii "options
-{
-matchKey = 42/// triple
-x='0' ;
-// packet A { u8 x, }
-//
-charz
-=
-// packet A { u8 x, }
-// trailing space 
-true  ; } MetaData BodyLength
-{
-uint8
-pack,zchar[ 1]float ,  float32 x_y_z `` ,u32
-,i16 body  , }
-")).
-Eval vm_compute in ("<<<M1579>>>" ++ check (runes_of_ascii "options {
-    matchKey = 42/// triple
-    x = '0';
-    // packet A { u8 x, }
-    //
-    charz = true
+Eval vm_compute in ("<<<M3935>>>" ++ check (runes_of_ascii "packet T {
+    u8 Packet,
+    @leftPad(' ')
+    match o as BodyLength {
+        [""it's""] : charz,
+        0 : T,
+        ""`tick`"" : stringy,
+    },
+    Logon A,
 }
 
-MetaData BodyLength {
-    uint8 pack,
-    zchar[1] float,
-    float32 x_y_z ``,
-    u32 _x,
-    i16 body,
-}")).
-Eval vm_compute in ("<<<M1536>>>" ++ check (runes_of_ascii "packet crc {
+root packet Logon {
+    @lengthOf(u8x)
+    repeat metadata Logon `tab	here`,
+    @lengthOf(x)
+    @tag(42)
+    @leftPad('\x00')
+    _x @calculatedFrom(""" ++ [128512]%N ++ runes_of_ascii """),
+    zchar[0] asx,
+    repeat char o,
+    body Logon,
     @tag(0123456789)
-    i64 uint8x,
-}
-
-MetaData i8i8 {
-    zchar[65535] int,
-}
-
-packet lengthOf {
-    // trailing space 
+    repeat lengthOf {
+        repeat asx tag,// @lengthOf(
+        lengthOf `line1
+                line2`,
+    },
+    _x,
+    f64 roots @calculatedFrom(""a\""b""),
+}")).
+Eval vm_compute in ("<<<M240>>>" ++ check (runes_of_ascii "packet As {
+    f32a { uint16 u8x, } , zchar[ 007 ] metadata  @calculatedFrom(	""\n"") ,	@lengthOf(
+    len	) @rightPad ( ) char[10	] Pad ,repeat options1 `two words` , @lengthOf( repeatCount
+) lengthOf @lengthOf( calculatedFrom) `doc` ,
+    @lengthOf(
+    lengthOf )
+repeat char[ 65535
     //	t
-    @leftPad('0')
-    falsey int,
-}
-// @lengthOf(")).
-Eval vm_compute in ("<<<M34>>>" ++ check (runes_of_ascii "options{// `tick` ""quote"" 'q'
-len // `tick` ""quote"" 'q'
-= """ ++ [28040; 24687]%N ++ runes_of_ascii """;
-options1 = // " ++ [27880; 37322]%N ++ runes_of_ascii "
-int32 zchar	=
-    ""1"" ;float
-= true tag =""" ++ [28040; 24687]%N ++ runes_of_ascii """ ; } MetaData u128 { msg_type i8i8 `doc` ,	o body
-, }
+    ]leftPad
+    , @calculatedFrom(	""{,}""
+) repeat leftPad {
+repeat Z9_ `tab	here`,  } , @leftPad ( '0')// packet A { u8 x, }
+i64  roots// a // b
+`" ++ [28040; 24687; 31867; 22411]%N ++ runes_of_ascii "` , repeat int32
+i8i8, } root packet calculatedFrom
+    // " ++ [27880; 37322]%N ++ runes_of_ascii "
+    { // packet A { u8 x, }
+}")).
+Eval vm_compute in ("<<<M784>>>" ++ check (runes_of_ascii "root
+packet
+u8x
+{// 50% %s
+@lengthOf(x_y_z
+//	t
+/// triple
+) char[
+0
+    ]i8i8 , repeat asx { repeat A o ,
+repeat
+    calculatedFrom As, // a // b
+match
+crc as
+    A{  3
+:
+    tag
+3
+    :
+    asx , 42 : A ""a	b""
+:
+    charz
+    // @lengthOf(
+    , 1:
+//	t
+//x
+roots
+,42
+: u8x  , },
+a1
+@lengthOf(
+    lengthOf )
+    //	t
+    `a\` , }
+, @calculatedFrom( ""// no comment"" )
+uint16
+options1
+`two words` ,
+u8x
+`
+` ,}
+    MetaData msg_type	{ }options
+    {len =	""packet"";
+i8i8 = '\x00'; chars = 42 ; u =
+    0123456789
+    }
 ")).
-Eval vm_compute in ("<<<M1370>>>" ++ check (runes_of_ascii "// top
-root // c0
-packet P // c2a
-  // c2b
-{ u16 // c4
-a // c5a
-  // c5b
-, // c6
-u32 // c7
-Sum @calculatedFrom(
-    // c9
-""CRC32"" // c10
-) , // c12a
+Eval vm_compute in ("<<<M628>>>" ++ check (runes_of_ascii "options {x_y_z=int32 charz =
+    false ;
+    o  = true ;
+pack// " ++ [27880; 37322]%N ++ runes_of_ascii "
+=""CRC32"";}	root// @lengthOf(
+packet  asx
+{  @tag(0) match
+    Foo /// triple
+as rootA
+    // trailing space 
+    {00:crc
+    // @lengthOf(
+    } , metadata {f32 u, }
+/// triple
+// packet A { u8 x, }
+, @tag(
+7 )
+    /// triple
+    As
+    @calculatedFrom( ""CRC32"" ) `// not a comment` ,  }
+MetaData x { char[]
+    //x
+    msg_type`" ++ [233]%N ++ runes_of_ascii "` , char uint8x `line1
+line2`,falsey
+charz
+`" ++ [28040; 24687; 31867; 22411]%N ++ runes_of_ascii "` // trailing space 
+,  string
+    chars `a\`, }
+")).
+Eval vm_compute in ("<<<M4160>>>" ++ check (runes_of_ascii "packet 
+BodyLength
+
+{  zchar[ 
+7
+    ]	leftPad
+    ,  @tag( 0123456789 )
+@calculatedFrom(	""`tick`""
+    ) 
+Foo
+T ,zchar[ 00
+] charz  @lengthOf(// trailing space 
+  tag) ,
+
+    @lengthOf(
+zchar
+	    // " ++ [128512]%N ++ runes_of_ascii " emoji
+) char[65535
+
+    ]
+u128
+
+@lengthOf( rootA  )  , 
+    //x
+	// 50% %s
+  	int64
+
+    Header 	 // c
+    ,  
+      // packet A { u8 x, }
+    @calculatedFrom(""\n"" 
+        // @lengthOf(
+
+  // " ++ [27880; 37322]%N ++ runes_of_ascii "
+  )
+match
+leftPad  as
+pack
+
+{4294967296
+
+: options1} 
+,
+}
+")).
+Eval vm_compute in ("<<<M472>>>" ++ check (runes_of_ascii "root packet
+    Z9_	{ char[ 10// packet A { u8 x, }
+]
+// a // b
+//x
+falsey @calculatedFrom( ""a	b"" )`// not a comment` , }
+root packet pack { Header{ match
+f32a as u128 {
+42	:i8i8
+,[ ""\" ++ [233]%N ++ runes_of_ascii """, ""a\""b"", 00  , 007
+, 42	] : chars , }
+,repeat
+    MetaDataX`" ++ [233]%N ++ runes_of_ascii "`,
+//
+// packet A { u8 x, }
+}
+    , uint16
+u @lengthOf(As  )
+`crlf
+line` ,char[0123456789
+    ] BodyLength ,
+charz, }MetaData float {char[]
+/// triple
+// trailing space 
+stringy`` , float falsey,}
+")).
+Eval vm_compute in ("<<<M3491>>>" ++ check (runes_of_ascii "packet A // c1a
+  // c1b
+{
+    // c2
+u8 // c3
+a , // c5
+} // c6
+packet // c7
+B // c8
+{ // c9
+u16 // c10
+b // c11
+, // c12a
   // c12b
 } // c13a
   // c13b
-")).
-Eval vm_compute in ("<<<M505>>>" ++ check (runes_of_ascii "options
-{
-matchKey = 42/// triple
-x='0' ;
-// packet A { u8 x, }
-//
-charz
-=
-// packet A { u8 x, }
-// trailing space 
-true  ; } MetaData BodyLength
-{
-uint8
-pack,zchar[ 1]")).
-Eval vm_compute in ("<<<M1361>>>" ++ check (runes_of_ascii "options
-    { LittleEndian =	true
-	;
-} 
-packet  B{ u8
-
-a
-    ,  string s
-
-,
-
-    } root
-
-packet	P	{
-
-u16	L  @lengthOf( B
-)
-,
-
-    B
-	, u8
-    t  ,
-	}
-")).
-Eval vm_compute in ("<<<M1507>>>" ++ check (runes_of_ascii "packet
-
-    A
-{
-    Inner {
-
-    match
-
-k as
-
-    n  {	[
+root packet // c15
+P
+    // c16
+{ u8 // c18a
+  // c18b
+K // c19
+, // c20a
+  // c20b
+match // c21a
+  // c21b
+K as
+    // c23
+M
+    // c24
+{ // c25a
+  // c25b
 1
-	,
-    22 ,
-007 
-,
-
-    4 
-,5  , 
-66	,
-
-    7 ]
-
-: B
-
-, } ,
-	} 
-,
-
-    }
-")).
-Eval vm_compute in ("<<<M1861>>>" ++ check (runes_of_ascii "packet A {
-    match k as n {
-        [
-            1, 22, 007, 4, 5,
-            66, 7, 8, 9, 10
-        ] : B,
-        2 : C,
-    },
-}")).
-Eval vm_compute in ("<<<M1947>>>" ++ check (runes_of_ascii "  packet
-
-A
-{match k
-	as n {
-[  ""a"" ,
-    ""bb"" ,
-
-    007	,  ""d"",""e""
-	, 66  ,
-    ""g"", ""h""  ,  9 ]	: B
-
-,
-2
+    // c26
 :
-    C
-    }
+    // c27
+A
+    // c28
 ,
-}")).
-Eval vm_compute in ("<<<M1564>>>" ++ check (runes_of_ascii "  packet
-
-A {	match k
-
-as  n{
-[  1  ,
-
-    22 , 007  ,
-4
-	, 5
-	,
-66,
-	7
-,8, 
-9
-, 10
-,
-
-    11]
-: B
-    , 2 : C } ,}")).
-Eval vm_compute in ("<<<M1525>>>" ++ check (runes_of_ascii "options {
-    Pad = 3;
-    float = false;
-    Z9_ = ""packet""
-    chars = ""a\""b""
-    float = ""a\\""
-}
-
-MetaData zchar {
-}")).
-Eval vm_compute in ("<<<M623>>>" ++ check (runes_of_ascii "MetaData
-    // trailing space 
-    matchKey
-{ u64 chars // a // b
-,char[] `// not a comment` lengthOf
-    , //	t
-}")).
-Eval vm_compute in ("<<<M99>>>" ++ check (runes_of_ascii "// c
-packet Logon
-    {
-@tag(
-42 )
-    repeat i64_ {As crc , }, } packet x_y_z { @lengthOf( x_y_z ) i8
-u `it's`, }")).
-Eval vm_compute in ("<<<M1789>>>" ++ check (runes_of_ascii "
-
-  MetaData
-	// " ++ [128512]%N ++ runes_of_ascii " emoji
-  msg_type
-{
-
-    As
-roots  , i32
-	rootA  ,
-	f64
-    falsey
-, char[] rootA
-	,}
+    // c29
+1 // c30a
+  // c30b
+: // c31
+B // c32a
+  // c32b
+, } , // c35
+} // c36
 ")).
-Eval vm_compute in ("<<<M1970>>>" ++ check (runes_of_ascii "
-packet	// c
-    o
-	{ @tag( 42
-)	repeat x { char[	0123456789
-]
-    i64_
+Eval vm_compute in ("<<<M1349>>>" ++ check (runes_of_ascii "packet
+    roots { char[
+10  ]
+a1 , @leftPad/// triple
+( '\x00'// " ++ [128512]%N ++ runes_of_ascii " emoji
+) @calculatedFrom( """ ++ [28040; 24687]%N ++ runes_of_ascii """
+)	@calculatedFrom(
+    ""`tick`"" ) repeat  chars As
+, @lengthOf( roots
+    )	repeat string_ {
+    char[
+7 ] As
+@calculatedFrom(""packet"" // trailing space 
+)
+// `tick` ""quote"" 'q'
+// 50% %s
+,
+i16
+x_y_z @calculatedFrom(
+    """ ++ [128512]%N ++ runes_of_ascii """
+) ,repeat zchar
+    // @lengthOf(
+    MetaDataX // @lengthOf(
+`100% of %d`
+,
+// " ++ [27880; 37322]%N ++ runes_of_ascii "
+//x
+}	,}
+")).
+Eval vm_compute in ("<<<M233>>>" ++ check (runes_of_ascii "
+packet pack { @lengthOf(  roots
+//	t
+/// triple
+)  match As as
+repeatCount  {	42 : Foo
+    , // " ++ [27880; 37322]%N ++ runes_of_ascii "
+} , @leftPad ( ' '
+)
+@lengthOf( zchar  ) u32
+chars , } packet
+    u{@lengthOf( pack )repeat	Packet {
+tag,}, @lengthOf(matchKey ) @lengthOf( a1 ) u16 float@calculatedFrom(""" ++ [128512]%N ++ runes_of_ascii """	) , char[ 3 ]matchKey	`" ++ [28040; 24687; 31867; 22411]%N ++ runes_of_ascii "`,  @lengthOf( stringy	) T @calculatedFrom( ""a	b"" // `tick` ""quote"" 'q'
+) `
+`
+,
+} // trailing space ")).
+Eval vm_compute in ("<<<M334>>>" ++ check (runes_of_ascii "root// 50% %s
+packet i64_
+    //	t
+    { @rightPad
+('0'
+    )@tag(255) match charz as Pad{007 : body
+    , }
+    , } packet Z9_{@calculatedFrom( ""`tick`"")
+string
+    // 50% %s
+    A `tab	here` //
+, repeat crc{
+    repeat u8x
+, char[ 42] x @lengthOf( o
+// a // b
+/// triple
+) , }	, } MetaData
+tag { uint16
+    falsey`a\`/// triple
+,	i32	asx ,
+    char[ 007
+    //
+    ] As
+, } // a // b")).
+Eval vm_compute in ("<<<M3834>>>" ++ check (runes_of_ascii "packet tag {
+    @rightPad(' ')
+    zchar packetx,
+    // packet A { u8 x, }
+    repeat asx {
+        zchar[10] Header ``,
+    },
+    string_ x_y_z,// @lengthOf(
+    @tag(7)
+    @leftPad()
+    float64 metadata `
+        `,
+    @lengthOf(Foo)
+    Packet matchKey `{ , }`,
+    repeat falsey,
+    Foo u `// not a comment`,
+    int32 BodyLength @calculatedFrom(""\" ++ [233]%N ++ runes_of_ascii """) `it's`,
+}")).
+Eval vm_compute in ("<<<M774>>>" ++ check (runes_of_ascii "packet Logon
+{ }
+    options { }
+root packet	u128 { @calculatedFrom( """ ++ [128512]%N ++ runes_of_ascii """) float64 options1, zchar[ 007] matchKey@lengthOf( A // " ++ [128512]%N ++ runes_of_ascii " emoji
+),
+    T
+//	t
+/// triple
+calculatedFrom // trailing space 
+, @lengthOf(
+    stringy )repeat Z9_ {
+u64
+    repeatCount,
+    // @lengthOf(
+    MetaDataX
+    `two words`,
+matchKey, }	,
+}
+MetaData  crc
+    {Pad MetaDataX ,}")).
+Eval vm_compute in ("<<<M3831>>>" ++ check (runes_of_ascii "  packet  chars {
+
+    string_
+
+    { 
+repeat
+zchar { match	u128
+    as
+	A 
+
+    // `tick` ""quote"" 'q'
+	//
+    	{ 42 :
+    pack ,
+
+    }
+	, 	 // " ++ [27880; 37322]%N ++ runes_of_ascii "
+	int64
+u128 // trailing space 
+	  ,
+repeatCount
+
+`it's` 
+, a1
+Z9_
+
+//
+    // trailing space 
+    , 
+
+    // packet A { u8 x, }
+/// triple
+  }
+,
+matchKey@calculatedFrom(
+""1""
+    ),
+	}
+,
+} ")).
+Eval vm_compute in ("<<<M133>>>" ++ check (runes_of_ascii "packet	x_y_z{ x_y_z
+u8x ,a1 {
+    char// c
+_x `line1
+line2`  , char[
+1 ]// trailing space 
+rootA  ,match A as  chars	{	7 :
+    MetaDataX,  ""abc"":Pad//x
+,
+[007  ] : tag, 65535 :	falsey,} , matchKey@lengthOf(
+As ) `a\`
+    ,} , @calculatedFrom( ""\n""
+) string i8i8,zchar[ 1 ]Packet `` ,// `tick` ""quote"" 'q'
+} packet metadata { }
+")).
+Eval vm_compute in ("<<<M1140>>>" ++ check (runes_of_ascii "root packet Header{ repeat
+lengthOf { match pack as body { """ ++ [128512]%N ++ runes_of_ascii """
+: options1 , //	t
+}
+,  repeat int8 lengthOf
+, } ,float ,
+    rootA float `say ""hi""`,}  packet stringy {
+    Z9_ `// not a comment`,
+@lengthOf( Pad
+) packetx
+{ string BodyLength ,
+    }// 50% %s
+, string BodyLength  ,// @lengthOf(
+repeat
+    i64 o ,}
+")).
+Eval vm_compute in ("<<<M3510>>>" ++ check (runes_of_ascii "
+packet	MDSnapshotZZ
+    {
+u8
+
+    a, 
+}
+packet
+
+    OrderACK
+	{u16
+
+    b
 
     , 
-}
-	, }	options
+}packet
+
+    HTTPServerInfo { string s  , }
+root packet
+	FIXMsg {
+u8 KType
+
+,
+MDSnapshotZZ,
+	repeat
+    OrderACK
+,
+    match
+    KType
+    as
+    Body { 
+1  :HTTPServerInfo
+,
+2
+
+    : OrderACK, }	, }
+
+")).
+Eval vm_compute in ("<<<M1129>>>" ++ check (runes_of_ascii "
+root packet zchar
     {
-} ")).
-Eval vm_compute in ("<<<M1264>>>" ++ check (runes_of_ascii "packet calculatedFrom { @tag( 4294967296 )
-// c
-u msg_type , char[ 3 ] crc @lengthOf( len ) `u8 x,` , }")).
-Eval vm_compute in ("<<<M912>>>" ++ check (runes_of_ascii "packet A {
-  match k as n {
-    [1, 22, ""c c"", 4, 5, ""f"", 7, 8, ""i"", 10, 11, ""l""] : B
-    2 : C
-  },
-}")).
-Eval vm_compute in ("<<<M899>>>" ++ check (runes_of_ascii "packet A {
-  match k as n {
-    [1, 22, ""c c"", 4, 5, ""f"", 7, 8, ""i"", 10, 11] : B
-    2 : C
-  },
-}")).
-Eval vm_compute in ("<<<M1142>>>" ++ check (runes_of_ascii "packet Logon { @tag( 42 ) @rightPad // c
-( ' ' ) @leftPad ( ) repeat trueish { string T , } , }")).
-Eval vm_compute in ("<<<M1957>>>" ++ check (runes_of_ascii "
+@calculatedFrom(""x y"") f32
+u // @lengthOf(
+@lengthOf(_x )
+    , }options { Foo = string falsey = ""\n""//x
+;calculatedFrom
+    = char[ 42  ]	roots =string ; }	packet	int
+{
+@tag( 10 ) @calculatedFrom(""""	)
+metadata
+    ,	} options {packetx ='\x00' ; _x = ""packet""; }
+")).
+Eval vm_compute in ("<<<M2047>>>" ++ check (runes_of_ascii "packet	packetx { // trailing space 
+x_y_z
+{
+string
+charz ,
+string x// @lengthOf(
+`two words`
+    ,  u8x { // `tick` ""quote"" 'q'
+charz `100% o@leftpadf %d` // packet A { u8 x, }
+,}// " ++ [27880; 37322]%N ++ runes_of_ascii "
+,} , }
+    // a // b
+    packet metadata {  @leftPad ( '0') repeat i32 options1 ,u64 uint8x , }
+")).
+Eval vm_compute in ("<<<M3579>>>" ++ check (runes_of_ascii "options 
+{LittleEndian=true;
+}packet Sub
 
-  packet A
-    {	Inner{match
+    {
+    u8
 
-    k as n
-	{
-    [ 1
-    ,22 ,007 ] :
-    B  ,  }
-	,
-} ,
+a ,
+	@calculatedFrom(	""CRC16""
+	)	i16 SubSum ,	}
+
+    root
+	packet
+Frame {
+u16 MsgType ,
+
+u16
+
+BodyLen
+	@lengthOf( Body
+)
+
+,
+	Sub
+Body , string	note
+
+    ,
+@calculatedFrom(
+""CRC16"") i16
+
+    Checksum ,
+
+u8 tail	,
 }
 ")).
-Eval vm_compute in ("<<<M1581>>>" ++ check (runes_of_ascii "// top
-root packet P {
-    // c3
-    repeat char cs,
-    u8 x,// c10a
-    // c10b
-}
-// c11")).
-Eval vm_compute in ("<<<M2009>>>" ++ check (runes_of_ascii "packet
-A
+Eval vm_compute in ("<<<M2027>>>" ++ check (runes_of_ascii "packet	packetx { // trailing space 
+x_y_z
+{
+string
+charz ,
+string x// @lengthOf(
+`two words`
+    ,  u8x { // `tick` ""quote"" 'q'
+charz `100% of %d` // packet A { u8 x, }
+,}// " ++ [27880; 37322]%N ++ runes_of_ascii "
+,} , }
+    // a // b
+    packet metadata {  @leftPad ( '0') repeat i32 options1 ,u64 uint8x , } }
+")).
+Eval vm_compute in ("<<<M1933>>>" ++ check (runes_of_ascii "packet	packetx { // trailing space 
+x_y_z
+{
+string
+charz ,
+string x// @lengthOf(
+`two words`
+    ,  u8x { // `tick` ""quote"" 'q'
+charz `100% of %d` // packet A { u8 x, }
+,,// " ++ [27880; 37322]%N ++ runes_of_ascii "
+}} , }
+    // a // b
+    packet metadata {  @leftPad ( '0') repeat i32 options1 ,u64 uint8x , }
+")).
+Eval vm_compute in ("<<<M1931>>>" ++ check (runes_of_ascii "packet	packetx { // trailing space 
+x_y_z
+{
+string
+charz ,
+string x// @lengthOf(
+`two words`
+    ,  u8x { // `tick` ""quote"" 'q'
+charz `100% of %d` // packet A { u8 x, }
+,// " ++ [27880; 37322]%N ++ runes_of_ascii "
+,} , }
+    // a // b
+    packet metadata {  @leftPad ( '0') repeat i32 options1 ,u64 uint8x , }
+")).
+Eval vm_compute in ("<<<M4099>>>" ++ check (runes_of_ascii "packet  // packet A { u8 x, }
+	repeatCount
+	{	// packet A { u8 x, }
+@leftPad  (  '\x00'
 
-{Logon{
-    repeat
+    )
+repeat MetaDataX
+    `crlf
+line` 
+, repeat char[] MetaDataX,
+u64  uint8x
+@calculatedFrom(""a\""b"" 
 
-char[42
-]falsey	`a\`
-	,  repeat  int32 T
+// c
+	  // packet A { u8 x, }
+		)
+
+`tab	here`,	//
+}  MetaData
+	pack
+
+{
+	}
+")).
+Eval vm_compute in ("<<<M179>>>" ++ check (runes_of_ascii "MetaData charz {float32 u `say ""hi""` , BodyLength charz`
+` , char[
+    10 ] Foo,
+    int64 float , i32 charz ,	char[ // @lengthOf(
+007
+/// triple
+// trailing space 
+]zchar `u8 x,`
 ,
-} ,
+    }
+options {
+    // a // b
+    BodyLength =  true
+    ;
+    }
+    //
+    options { }")).
+Eval vm_compute in ("<<<M814>>>" ++ check (runes_of_ascii "MetaData
+stringy { tag // c
+Z9_`{ , }`	,
+// packet A { u8 x, }
+// trailing space 
+crc
+    _x
+`two words` , i64_
+trueish `say ""hi""`,
+float32 trueish
+// @lengthOf(
+// packet A { u8 x, }
+,
+    /// triple
+    char[
+0123456789 ] tag ,
+uint8 Packet , } MetaData x_y_z { }
+")).
+Eval vm_compute in ("<<<M3818>>>" ++ check (runes_of_ascii "packet
 
+    calculatedFrom
+
+//	t
+  {
+
+@leftPad (
+    '\x00'
+
+    )
+    match
+i8i8
+
+as 
+
+// " ++ [27880; 37322]%N ++ runes_of_ascii "
+    	BodyLength  {
+
+    255 :
+
+o , 0
+
+    :	Header // " ++ [27880; 37322]%N ++ runes_of_ascii "
+	,""CRC32""
+:	asx , 
+7
+
+    :
+u  [	10
+    ,0
+
+    ] : 
+packetx
+,	0 :
+
+    Foo
+,
+} 
+,
+
+    }")).
+Eval vm_compute in ("<<<M2206>>>" ++ check (runes_of_ascii "packet// packet A { u8 x, }
+rep" ++ [233]%N ++ runes_of_ascii "eatCount	{// packet A { u8 x, }
+@leftPad ( '\x00'
+) repeat u8x MetaDataX `crlf
+line`,
+    repeat
+    char[] MetaDataX
+    ,
+u64	uint8x@calculatedFrom(""a\""b""
+// c
+// packet A { u8 x, }
+) `tab	here`
+,//
+}MetaData pack
+    {
     }
 ")).
-Eval vm_compute in ("<<<M831>>>" ++ check (runes_of_ascii "packet A {
-  match k as n {
-    [""a"", 22, ""c c"", 4, ""e"", 66] : B,
-    2 : C
-  },
-}")).
-Eval vm_compute in ("<<<M1225>>>" ++ check (runes_of_ascii "packet o { @tag( 42 ) repeat x {
+Eval vm_compute in ("<<<M2131>>>" ++ check (runes_of_ascii "packet// packet A { u8 x, }
+repeatCount	{// packet A { u8 x, }
+@leftPad ( '\x00'
+) repeat u8x MetaDataX `crlf
+line`,
+    repeat
+    char[] MetaDataX
+    ,
+uint8x	u64@calculatedFrom(""a\""b""
 // c
-char[ 0123456789 ] i64_ , } , } options { }")).
-Eval vm_compute in ("<<<M1093>>>" ++ check (runes_of_ascii "packet A { u16 // a
- len // b
- @lengthOf( // c
- body // d
- ) // e
- `d` // f
- , }")).
-Eval vm_compute in ("<<<M1940>>>" ++ check (runes_of_ascii "MetaData matchKey {
-    u64 chars,
-    i16 lengthOf `// not a comment`,//	t
+// packet A { u8 x, }
+) `tab	here`
+,//
+}MetaData pack
+    {
+    }
+")).
+Eval vm_compute in ("<<<M923>>>" ++ check (runes_of_ascii "root packet zchar {o @lengthOf(i8i8  ) ,@lengthOf(
+    chars )
+repeat zchar[
+00]
+    A `" ++ [28040; 24687; 31867; 22411]%N ++ runes_of_ascii "` // c
+,}packet//	t
+tag // c
+{ @tag( 1
+)
+    msg_type
+    `" ++ [233]%N ++ runes_of_ascii "` // 50% %s
+,
+// " ++ [128512]%N ++ runes_of_ascii " emoji
+/// triple
+u16 string_ , int8	crc@calculatedFrom(""{,}"" ),  uint64 tag
+    , }
+")).
+Eval vm_compute in ("<<<M3497>>>" ++ check (runes_of_ascii "// top
+packet
+    // c0
+order_item
+    // c1
+{
+    // c2
+u8 // c3a
+  // c3b
+a , // c5a
+  // c5b
+} // c6a
+  // c6b
+root // c7
+packet // c8
+new_order // c9
+{ // c10a
+  // c10b
+order_item // c11a
+  // c11b
+, u8
+    // c13
+x
+    // c14
+, // c15
+}
+    // c16
+")).
+Eval vm_compute in ("<<<M2058>>>" ++ check (runes_of_ascii "packet// packet A { u8 x, }
+10	{// packet A { u8 x, }
+@leftPad ( '\x00'
+) repeat u8x MetaDataX `crlf
+line`,
+    repeat
+    char[] MetaDataX
+    ,
+u64	uint8x@calculatedFrom(""a\""b""
+// c
+// packet A { u8 x, }
+) `tab	here`
+,//
+}MetaData pack
+    {
+    }
+")).
+Eval vm_compute in ("<<<M1619>>>" ++ check (runes_of_ascii "packet calculatedFrom
+{ @calculatedFrom( ""a\\"" ) zchar[ 4294967296 ]
+calculatedFrom@lengthOf( pack )	`100% of %d` ? ,char[]body@calculatedFrom( ""// no comment"" )  ,
+@tag( 007) //x
+int8
+leftPad`it's` , repeat pack
+    { repeat char[ 3] body
+,},
 }")).
-Eval vm_compute in ("<<<M821>>>" ++ check (runes_of_ascii "packet A {
+Eval vm_compute in ("<<<M1010>>>" ++ check (runes_of_ascii "root
+// packet A { u8 x, }
+// 50% %s
+packet charz
+//x
+//	t
+{	}
+MetaData
+calculatedFrom { // trailing space 
+charz // trailing space 
+Foo  ,// packet A { u8 x, }
+leftPad
+    /// triple
+    Z9_
+    `doc`  ,uint32 _x `100% of %d` // 50% %s
+, } //	t")).
+Eval vm_compute in ("<<<M1570>>>" ++ check (runes_of_ascii "packet calculatedFrom
+{ @calculatedFrom( ""a\\"" ) zchar[ 4294967296 ]
+calculatedFrom@lengthOf( pack )	`100% of %d` ,char[]body@calculatedFrom( ""// no comment"" )  ,
+@tag( 007) //x
+int8
+leftPad`it's` , repeat pack
+    { char[ repeat 3] body
+,},
+}")).
+Eval vm_compute in ("<<<M1526>>>" ++ check (runes_of_ascii "packet calculatedFrom
+{ @calculatedFrom( ""a\\"" ) zchar[ 4294967296 ]
+calculatedFrom@lengthOf( pack )	`100% of %d` ,char[]body@calculatedFrom( ""// no comment"" )  ,
+@tag( ]) //x
+int8
+leftPad`it's` , repeat pack
+    { repeat char[ 3] body
+,},
+}")).
+Eval vm_compute in ("<<<M1602>>>" ++ check (runes_of_ascii "packet calculatedFrom
+{ @calculatedFrom( ""a\\"" ) zchar[ 4294967296 ]
+calculatedFrom@lengthOf( pack )	`100% of %d` ,char[]body@calculatedFrom( ""// no comment"" )  ,
+@tag( 007) //x
+int8
+leftPad`it's` , repeat pack
+    { repeat char[ 3] body
+,")).
+Eval vm_compute in ("<<<M1592>>>" ++ check (runes_of_ascii "packet calculatedFrom
+{ @calculatedFrom( ""a\\"" ) zchar[ 4294967296 ]
+calculatedFrom@lengthOf( pack )	`100% of %d` ,char[]body@calculatedFrom( ""// no comment"" )  ,
+@tag( 007) //x
+int8
+leftPad`it's` , repeat pack
+    { repeat char[ 3]")).
+Eval vm_compute in ("<<<M44>>>" ++ check (runes_of_ascii "options { stringy = 7 packetx = char[
+    // trailing space 
+    1 ] ;
+msg_type = uint16 // " ++ [27880; 37322]%N ++ runes_of_ascii "
+; Foo	=
+    ' ' len= '\x00' ;
+} options {msg_type = char[ // " ++ [27880; 37322]%N ++ runes_of_ascii "
+007 ] ;i8i8 =
+""" ++ [28040; 24687]%N ++ runes_of_ascii """
+    ; stringy = ""it's"" MetaDataX  = false }
+")).
+Eval vm_compute in ("<<<M487>>>" ++ check (runes_of_ascii "MetaData // " ++ [27880; 37322]%N ++ runes_of_ascii "
+lengthOf{
+    char[ // packet A { u8 x, }
+3	] metadata ,//	t
+char[
+    7 ] float,
+roots
+    // " ++ [128512]%N ++ runes_of_ascii " emoji
+    o
+    , repeatCount
+    // @lengthOf(
+    calculatedFrom `say ""hi""`, u64
+asx `{ , }` ,}
+")).
+Eval vm_compute in ("<<<M67>>>" ++ check (runes_of_ascii "packet // c
+repeatCount
+    { } MetaData calculatedFrom
+{
+}root packet Header
+{
+repeat	f32a metadata `doc` ,
+}
+root packet u128 { @calculatedFrom( """"
+)
+    zchar[
+    4294967296	] A@lengthOf( A  ) , }")).
+Eval vm_compute in ("<<<M1149>>>" ++ check (runes_of_ascii "packet body {@lengthOf( leftPad	) i8 matchKey , match u
+    as
+len
+    { ""a\""b""
+    :string_
+,
+    [
+""\n"" ]
+    :int , ""{,}"": Header , [
+    0 ,0 ]
+    //
+    : lengthOf,10 :  As ,
+    }
+    ,}
+
+")).
+Eval vm_compute in ("<<<M1960>>>" ++ check (runes_of_ascii "packet	packetx { // trailing space 
+x_y_z
+{
+string
+charz ,
+string x// @lengthOf(
+`two words`
+    ,  u8x { // `tick` ""quote"" 'q'
+charz `100% of %d` // packet A { u8 x, }
+,}// " ++ [27880; 37322]%N ++ runes_of_ascii "
+,} , }")).
+Eval vm_compute in ("<<<M1945>>>" ++ check (runes_of_ascii "packet	packetx { // trailing space 
+x_y_z
+{
+string
+charz ,
+string x// @lengthOf(
+`two words`
+    ,  u8x { // `tick` ""quote"" 'q'
+charz `100% of %d` // packet A { u8 x, }
+,}// " ++ [27880; 37322]%N ++ runes_of_ascii "
+,")).
+Eval vm_compute in ("<<<M1537>>>" ++ check (runes_of_ascii "packet calculatedFrom
+{ @calculatedFrom( ""a\\"" ) zchar[ 4294967296 ]
+calculatedFrom@lengthOf( pack )	`100% of %d` ,char[]body@calculatedFrom( ""// no comment"" )  ,
+@tag( 007)")).
+Eval vm_compute in ("<<<M1304>>>" ++ check (runes_of_ascii "packet Logon{ i8 MetaDataX
+, }
+options
+    {
+    stringy = ""packet"" u8x=
+""abc"" ; Logon = false ; trueish
+= """ ++ [28040; 24687]%N ++ runes_of_ascii """	u
+// `tick` ""quote"" 'q'
+// a // b
+=
+""1"" // " ++ [128512]%N ++ runes_of_ascii " emoji
+; }
+")).
+Eval vm_compute in ("<<<M2442>>>" ++ check (runes_of_ascii "
+packet MetaDataX
+{
+    @leftPad
+( // a // b
+'0'
+) i8 u @lengthOf(
+MetaDataX
+    ) `say ""hi""` ,	'\x01'} MetaData BodyLength {
+    asx
+x_y_z `" ++ [233]%N ++ runes_of_ascii "`
+, uint64 u128 , }
+")).
+Eval vm_compute in ("<<<M1753>>>" ++ check (runes_of_ascii "options { } packet Packet{char[] i64_ ,
+@tag(
+    255) match
+crc as i8i8{""{,}"" : trueish """" : Pad , ""a\\"" ""a\\"" :
+Foo ,
+    1 :packetx
+, """ ++ [128512]%N ++ runes_of_ascii """ : trueish , } , }")).
+Eval vm_compute in ("<<<M3457>>>" ++ check (runes_of_ascii "packet 
+B
+
+    { 
+u8
+    a
+,
+}root
+packet 
+P{
+
+u8  K
+
+,
+
+    u64 L @lengthOf(Body
+
+    )
+
+,match K as
+
+    Body{
+	1
+	:
+
+    B
+
+    , }
+,
+    }
+
+")).
+Eval vm_compute in ("<<<M2361>>>" ++ check (runes_of_ascii "
+packet MetaDataX
+{
+    @leftPad
+( // a // b
+'0'
+) i8 u @lengthOf(
+MetaDataX
+    ) `say ""hi""` ,	} MetaData BodyLength {
+    asx
+x_y_z `" ++ [233]%N ++ runes_of_ascii "`
+, u128 uint64 , }
+")).
+Eval vm_compute in ("<<<M1768>>>" ++ check (runes_of_ascii "options { } packet Packet{char[] i64_ ,
+@tag(
+    255) match
+crc as i8i8{""{,}"" : trueish """" : Pad , ""a\\"" :
+Foo , ,
+    1 :packetx
+, """ ++ [128512]%N ++ runes_of_ascii """ : trueish , } , }")).
+Eval vm_compute in ("<<<M1659>>>" ++ check (runes_of_ascii "options { } packet Packet char[]{ i64_ ,
+@tag(
+    255) match
+crc as i8i8{""{,}"" : trueish """" : Pad , ""a\\"" :
+Foo ,
+    1 :packetx
+, """ ++ [128512]%N ++ runes_of_ascii """ : trueish , } , }")).
+Eval vm_compute in ("<<<M1699>>>" ++ check (runes_of_ascii "options { } packet Packet{char[] i64_ ,
+@tag(
+    255) match
+as crc i8i8{""{,}"" : trueish """" : Pad , ""a\\"" :
+Foo ,
+    1 :packetx
+, """ ++ [128512]%N ++ runes_of_ascii """ : trueish , } , }")).
+Eval vm_compute in ("<<<M2398>>>" ++ check (runes_of_ascii "
+packet MetaDataX
+{
+    @leftPad
+( // a // b
+'0'
+) i8 u @lengthOf(
+MetaDataX
+    ) `say ""hi""` ,	} MetaData BodyLength {
+    asx
+x_y_z `" ++ [233]%N ++ runes_of_ascii "`
+, uint64 u128 ,")).
+Eval vm_compute in ("<<<M3736>>>" ++ check (runes_of_ascii "
+options {  f32a= 
+  // @lengthOf(
+    false  // packet A { u8 x, }
+stringy 
+= 
+255 ;  len
+
+    =
+
+    ""// no comment""  // packet A { u8 x, }
+	;} ")).
+Eval vm_compute in ("<<<M1792>>>" ++ check (runes_of_ascii "options { } packet Packet{char[] i64_ ,
+@tag(
+    255) match
+crc as i8i8{""{,}"" : trueish """" : Pad , ""a\\"" :
+Foo ,
+    1 :packetx
+,  : trueish , } , }")).
+Eval vm_compute in ("<<<M1293>>>" ++ check (runes_of_ascii "MetaData trueish {
+i64 As ,char[ 3 ] x
+, char[
+42
+    //x
+    ]
+    BodyLength
+,
+    i32 //	t
+chars,
+char[]i64_ `it's` , string matchKey , } //x")).
+Eval vm_compute in ("<<<M3786>>>" ++ check (runes_of_ascii "packet len {
+    char[42] rootA @calculatedFrom(""a	b""),
+}
+
+packet stringy {
+    @leftPad('\x00')
+    i16 Packet @lengthOf(zchar) `100% of %d`,
+}")).
+Eval vm_compute in ("<<<M1137>>>" ++ check (runes_of_ascii "packet msg_type{ a1 @lengthOf(body ) `crlf
+line` , zchar[ 7 ] BodyLength
+// 50% %s
+// @lengthOf(
+@lengthOf( Logon ) , i16 charz //	t
+,  }")).
+Eval vm_compute in ("<<<M3603>>>" ++ check (runes_of_ascii "MetaData metadata {
+}
+
+MetaData rootA {
+    i8 i64_,
+    roots options1 `a\`,
+    lengthOf Header,
+    Z9_ Foo,
+    int16 BodyLength,
+}")).
+Eval vm_compute in ("<<<M3490>>>" ++ check (runes_of_ascii "packet A {
+    u8 a,
+}
+packet B {
+    u16 b,
+}
+root packet P {
+    u8 K,
+    match K as M {
+        1 : A,
+        1 : B,
+    },
+}
+")).
+Eval vm_compute in ("<<<M1502>>>" ++ check (runes_of_ascii "packet calculatedFrom
+{ @calculatedFrom( ""a\\"" ) zchar[ 4294967296 ]
+calculatedFrom@lengthOf( pack )	`100% of %d` ,char[]body")).
+Eval vm_compute in ("<<<M3280>>>" ++ check (runes_of_ascii "MetaData metadata { } MetaData rootA { i8 i64_ , // c
+roots options1 `a\` , lengthOf Header , Z9_ Foo , int16 BodyLength , }")).
+Eval vm_compute in ("<<<M4390>>>" ++ check (runes_of_ascii "MetaData float {
+    uint8 BodyLength,
+}
+
+MetaData charz {
+    float32 trueish `a\`,
+    // c
+    i16 metadata `say ""hi""`,
+}")).
+Eval vm_compute in ("<<<M3013>>>" ++ check (runes_of_ascii "packet A {
   match k as n {
-    [1, 22, ""c c"", 4, 5] : B
+    [""a"", ""bb"", ""c c"", ""d"", ""e"", ""f"", ""g"", ""h"", ""i"", ""j"", ""k"", ""l""] : B,
     2 : C
   },
 }")).
-Eval vm_compute in ("<<<M876>>>" ++ check (runes_of_ascii "packet A { Inner { match k as n { [1,22,007,4,5,66,7,8,9] : B, }, }, }")).
-Eval vm_compute in ("<<<M863>>>" ++ check (runes_of_ascii "packet A { Inner { match k as n { [1,22,007,4,5,66,7,8] : B, }, }, }")).
-Eval vm_compute in ("<<<M783>>>" ++ check (runes_of_ascii "packet A {
-  match k as n {
-    [""a"", 22] : B,
-    2 : C
-  },
+Eval vm_compute in ("<<<M4174>>>" ++ check (runes_of_ascii "packet A {
+    u16 len @lengthOf(body) `
+    x`,
+    u32 crc @calculatedFrom(""CRC32"") `
+    x`,
+    string body,
 }")).
-Eval vm_compute in ("<<<M223>>>" ++ check (runes_of_ascii "options //	t
-{  MetaDataX = // " ++ [128512]%N ++ runes_of_ascii " emoji
-'0';  } /// triple")).
-Eval vm_compute in ("<<<M356>>>" ++ check (runes_of_ascii "packet
-    x_y_z {
-i8 As@calculatedFrom(""a	b""	)  ,}")).
-Eval vm_compute in ("<<<M355>>>" ++ check (runes_of_ascii "root
-    packet repeatCount {	A	,
-    } 	 ")).
-Eval vm_compute in ("<<<M1117>>>" ++ check (runes_of_ascii "MetaData zchar { zchar[ 3 ] Pad
+Eval vm_compute in ("<<<M3319>>>" ++ check (runes_of_ascii "MetaData
+// c
+float { uint8 BodyLength , } MetaData charz { float32 trueish `a\` , i16 metadata `say ""hi""` , }")).
+Eval vm_compute in ("<<<M3351>>>" ++ check (runes_of_ascii "MetaData float { uint8 BodyLength , } MetaData charz { float32 trueish `a\` , i16 metadata `say ""hi""`
 // c
 , }")).
-Eval vm_compute in ("<<<M1896>>>" ++ check (runes_of_ascii "packet A {
-    u8 x,// c
-    u8 y,
+Eval vm_compute in ("<<<M3018>>>" ++ check (runes_of_ascii "packet A {
+  match k as n {
+    [""a"", 22, ""c c"", 4, ""e"", 66, ""g"", 8, ""i"", 10, ""k"", 12] : B
+    2 : C
+  },
 }")).
-Eval vm_compute in ("<<<M1916>>>" ++ check (runes_of_ascii "packet A {
-    u8 x `d" ++ [65279]%N ++ runes_of_ascii "`,// c" ++ [65279]%N ++ runes_of_ascii "
+Eval vm_compute in ("<<<M3051>>>" ++ check (runes_of_ascii "packet A {
+    Inner {
+        u8 x `a
+
+b`,
+        Deep {
+            u8 y `a
+
+b`,
+        },
+    },
 }")).
-Eval vm_compute in ("<<<M1057>>>" ++ check (runes_of_ascii "packet A {
- u8 x `d" ++ [6158]%N ++ runes_of_ascii "`, // c" ++ [6158]%N ++ runes_of_ascii "
-}")).
-Eval vm_compute in ("<<<M1079>>>" ++ check (runes_of_ascii "options { a = 1 // a
- ; }")).
-Eval vm_compute in ("<<<M760>>>" ++ check ([8]%N ++ runes_of_ascii "9" ++ [65533]%N ++ runes_of_ascii "?/" ++ [3; 65533]%N ++ runes_of_ascii "D" ++ [65533; 65533]%N ++ runes_of_ascii "z2" ++ [65533]%N ++ runes_of_ascii "[:" ++ [65533; 65533]%N ++ runes_of_ascii "DW" ++ [647]%N ++ runes_of_ascii "|1")).
-Eval vm_compute in ("<<<M1827>>>" ++ check (runes_of_ascii "root packet Z9_ {
-}")).
-Eval vm_compute in ("<<<M1045>>>" ++ check (runes_of_ascii "packet A {
+Eval vm_compute in ("<<<M3511>>>" ++ check (runes_of_ascii "packet FooBar {
+    u8 a,
 }
-// c" ++ [8203]%N)).
-Eval vm_compute in ("<<<M1743>>>" ++ check (runes_of_ascii "MetaData i64_ {
+packet foo_bar {
+    u16 b,
+}
+root packet R {
+    FooBar,
+    foo_bar,
+}
+")).
+Eval vm_compute in ("<<<M2276>>>" ++ check (runes_of_ascii "MetaData _x {string x @lengthOf`// not a comment` , string
+i64_ // trailing space 
+`a\` ,
+    }
+")).
+Eval vm_compute in ("<<<M2646>>>" ++ check (runes_of_ascii "packet A { @rightPad(' ') @lengthOf(b) @calculatedFrom(""c"") @tag(007) match k as n { 1 : B }, }")).
+Eval vm_compute in ("<<<M2998>>>" ++ check (runes_of_ascii "packet A {
+  match k as n {
+    [1, 22, 007, 4, 5, 66, 7, 8, 9, 10, 11] : B,
+    2 : C
+  },
 }")).
-Eval vm_compute in ("<<<M395>>>" ++ check (runes_of_ascii "options")).
-Eval vm_compute in ("<<<M727>>>" ++ check (runes_of_ascii "		")).
+Eval vm_compute in ("<<<M2240>>>" ++ check (runes_of_ascii "MetaData _x {string x `// not a comment` , , string
+i64_ // trailing space 
+`a\` ,
+    }
+")).
+Eval vm_compute in ("<<<M2966>>>" ++ check (runes_of_ascii "packet A {
+  match k as n {
+    [""a"", 22, ""c c"", 4, ""e"", 66, ""g"", 8] : B
+    2 : C
+  },
+}")).
+Eval vm_compute in ("<<<M2239>>>" ++ check (runes_of_ascii "MetaData _x {string x `// not a comment`  string
+i64_ // trailing space 
+`a\` ,
+    }
+")).
+Eval vm_compute in ("<<<M3094>>>" ++ check (runes_of_ascii "packet A {
+    u32 crc @calculatedFrom(""x\
+y""),
+    @calculatedFrom(""x\
+y"") u8 y,
+}")).
+Eval vm_compute in ("<<<M3091>>>" ++ check (runes_of_ascii "packet A {
+    u32 crc @calculatedFrom(""x\
+y""),
+    @calculatedFrom(""x\
+y"") u8 y,
+}")).
+Eval vm_compute in ("<<<M3694>>>" ++ check (runes_of_ascii "  packet
+	A{ Inner {
+u8
+	x `
+x` ,
+
+    Deep
+
+{
+
+u8 y `
+x` 
+,
+    }
+    ,}, }
+")).
+Eval vm_compute in ("<<<M2941>>>" ++ check (runes_of_ascii "packet A {
+  match k as n {
+    [1, 22, ""c c"", 4, 5, ""f""] : B,
+    2 : C
+  },
+}")).
+Eval vm_compute in ("<<<M499>>>" ++ check (runes_of_ascii "packet
+    lengthOf { } options { options1
+// c
+// 50% %s
+= 0123456789 ; }
+
+")).
+Eval vm_compute in ("<<<M3384>>>" ++ check (runes_of_ascii "MetaData _x { f64 charz `tab	here` , } options { BodyLength // c
+= """ ++ [233]%N ++ runes_of_ascii "t" ++ [233]%N ++ runes_of_ascii """ ; }")).
+Eval vm_compute in ("<<<M4058>>>" ++ check (runes_of_ascii "
+
+  MetaData  M
+{ u8
+x `100% of %s %d %v`
+, T 
+t
+`100% of %s %d %v` ,	}")).
+Eval vm_compute in ("<<<M4133>>>" ++ check (runes_of_ascii "packet Logon {
+    //
+    // `tick` ""quote"" 'q'
+    int `100% of %d`,
+}")).
+Eval vm_compute in ("<<<M2908>>>" ++ check (runes_of_ascii "packet A {
+  match k as n {
+    [1, 22, 007, 4] : B
+    2 : C
+  },
+}")).
+Eval vm_compute in ("<<<M320>>>" ++ check (runes_of_ascii "MetaData string_
+{
+    uint8	a1`a\` , float64
+int ,
+} // @lengthOf(")).
+Eval vm_compute in ("<<<M3636>>>" ++ check (runes_of_ascii "packet o {
+    @tag(4294967296)
+    options1 @lengthOf(u8x) `" ++ [233]%N ++ runes_of_ascii "`,
+}")).
+Eval vm_compute in ("<<<M2794>>>" ++ check (runes_of_ascii "' ' root int8 as uint8 packet zchar[ = true string int8 float64")).
+Eval vm_compute in ("<<<M889>>>" ++ check (runes_of_ascii "packet
+    T {} MetaData o
+    {
+}
+options {
+// 50% %s
+//
+}")).
+Eval vm_compute in ("<<<M4229>>>" ++ check (runes_of_ascii "
+packet 
+A { B{// a
+	u8
+x ,	// b
+    }// c
+	, // d
+	}")).
+Eval vm_compute in ("<<<M2743>>>" ++ check (runes_of_ascii """it's"" string as uint16 float32 char[] @calculatedFrom(")).
+Eval vm_compute in ("<<<M3997>>>" ++ check (runes_of_ascii "packet metadata {
+    i8 Z9_ @lengthOf(Z9_) `it's`,
+}")).
+Eval vm_compute in ("<<<M2296>>>" ++ check (runes_of_ascii "
+MetaData char[{
+u32 rootA `line1
+line2` ,
+    }
+")).
+Eval vm_compute in ("<<<M2723>>>" ++ check (runes_of_ascii "@lengthOf( = i64 float32 3 uint16 root [ MetaData")).
+Eval vm_compute in ("<<<M2323>>>" ++ check (runes_of_ascii "
+MetaData Pad{
+u32 rootA `line1
+line2` ,
+    
+")).
+Eval vm_compute in ("<<<M3681>>>" ++ check (runes_of_ascii "
+
+  packet  A{ u8	x `d `
+
+    ,	// c 
+    }")).
+Eval vm_compute in ("<<<M3223>>>" ++ check (runes_of_ascii "packet A { char[ // a
+ 3 // b
+ ] // c
+ x, }")).
+Eval vm_compute in ("<<<M4193>>>" ++ check (runes_of_ascii "
+
+  root 
+packet
+A
+	{
+u8 x
+
+`x
+` ,  }
+
+")).
+Eval vm_compute in ("<<<M955>>>" ++ check (runes_of_ascii "MetaData charz { chars u `u8 x,`,
+} 	 ")).
+Eval vm_compute in ("<<<M2328>>>" ++ check (runes_of_ascii "
+MetaData Pad{
+u32 rootA `line1
+line")).
+Eval vm_compute in ("<<<M4372>>>" ++ check (runes_of_ascii "
+
+  options	{  float  =	""packet""; } ")).
+Eval vm_compute in ("<<<M2753>>>" ++ check (runes_of_ascii "a/<gQx\e""%K$)=p{<a69Ria#wlx3""A,!*1")).
+Eval vm_compute in ("<<<M481>>>" ++ check (runes_of_ascii "packet Packet
+{  } options
+{ }
+")).
+Eval vm_compute in ("<<<M2622>>>" ++ check (runes_of_ascii "packet A { match k as n { }, }")).
+Eval vm_compute in ("<<<M3205>>>" ++ check (runes_of_ascii "MetaData M {
+}// c
+options {}")).
+Eval vm_compute in ("<<<M3193>>>" ++ check (runes_of_ascii "packet A {
+}// a// b// c
+")).
+Eval vm_compute in ("<<<M1661>>>" ++ check (runes_of_ascii "options { } packet Packet")).
+Eval vm_compute in ("<<<M4323>>>" ++ check (runes_of_ascii "packet
+	a1 
+{
+
+    }
+
+")).
+Eval vm_compute in ("<<<M942>>>" ++ check (runes_of_ascii "
+MetaData	string_ { }")).
+Eval vm_compute in ("<<<M516>>>" ++ check (runes_of_ascii "packet Foo { } //	t")).
+Eval vm_compute in ("<<<M2678>>>" ++ check (runes_of_ascii "options { a = b; }")).
+Eval vm_compute in ("<<<M3175>>>" ++ check (runes_of_ascii "// c" ++ [8203]%N ++ runes_of_ascii "
+packet A {
+}")).
+Eval vm_compute in ("<<<M3112>>>" ++ check (runes_of_ascii "packet A {
+}// c" ++ [160]%N)).
+Eval vm_compute in ("<<<M3954>>>" ++ check (runes_of_ascii "
+
+  options{
+} ")).
+Eval vm_compute in ("<<<M3851>>>" ++ check (runes_of_ascii "packet tag {
+}")).
+Eval vm_compute in ("<<<M525>>>" ++ check (runes_of_ascii "
+ // a // b")).
+Eval vm_compute in ("<<<M2858>>>" ++ check (runes_of_ascii "f64 false")).
+Eval vm_compute in ("<<<M2511>>>" ++ check (runes_of_ascii "@tag(1)")).
+Eval vm_compute in ("<<<M986>>>" ++ check (runes_of_ascii "   	 ")).
+Eval vm_compute in ("<<<M3148>>>" ++ check (runes_of_ascii "// c" ++ [8239]%N)).
+Eval vm_compute in ("<<<M2752>>>" ++ check ([65533]%N ++ runes_of_ascii "<f" ++ [65533]%N)).
+Eval vm_compute in ("<<<M2569>>>" ++ check (runes_of_ascii "a" ++ [12]%N ++ runes_of_ascii "b")).
+Eval vm_compute in ("<<<M2824>>>" ++ check ([65533; 65533]%N)).
